@@ -15,6 +15,51 @@ of the stream in fresh interpreters in different orders (rare classes / refused 
 verdicts and digests of all observables; a stream case that fails only because of what ran before it is
 reported as a replayable `order` / `epw_history` input.  Producers and consumers: see the table above
 `ALL_READS`.
+
+Round 4 (override gaps, aliasing / one-shot iterables, conventions between modules, numeric edges, input shapes,
+rare branches):
+  (e) every operation on every concrete class: the three sky classes (_SkyCondition, ASHRAEClearSky, ASHRAETau
+      incl. the 2017 variant) x dates of the leap year (29 Feb, 1 Mar, 31 Dec) x daylight saving in the `dates`
+      oracle (hourly series, sun date-times with their leap flag, radiation recomputed for the stated date);
+      oracle op `routes`: the same design day through every construction route (constructor, duplicate / copy,
+      to_dict -> from_dict also through JSON and inside a DDY dictionary, DDY.from_design_day,
+      from_design_day_properties, sky condition from an analysis period given as numbers / strings / text form,
+      conditions assigned one by one, IDF text) is ONE design day (==, hash, every observable);
+  (f) oracle op `shapes`: the design days of a DDY as list, tuple, generator, iter(), map, filter, dict view (keys
+      in non-sorted insertion order), deque, reversed, a one-shot iterable class, chained iterators - through the
+      constructor, the setter, the setter twice, refused inputs; `ddy_to_string` correspondence feeds the real
+      DDY every shape while the model takes lists (theorem C16_ddy_days_shape_independent); read `scribble` in the
+      histories edits every returned container in place (lists, collection values and metadata, dictionaries,
+      radiation lists) and the following reads must not notice; `ashrae_shapes`: header dictionaries in any
+      insertion order / OrderedDict / surplus keys, tau as list or tuple;
+  (g) EPW variants written by the harness (`gen:leap:` = leap-year header + 29 Feb inserted, `gen:nopress:`,
+      `gen:nohdr:`): the coincident wet bulb / wind speed / wind direction / daily range of approximate and
+      monthly days are recomputed from the raw records (value-at-the-hour convention: record k is hour k-1;
+      calendar by the stdlib, month-local and annual positions differ from March on in a leap file);
+      `_coarse_sun_clause`: day and night of the radiation against a sun formula written here (clock vs
+      standard time, sign of longitude / time zone, hour-of-year of the other year kind);
+  (h) dry-bulb profile at magnitudes 1e-300 .. 1e16, inexact sums, halves, -0.0 (bit exact against the model);
+      all 12 timesteps on 30 / 31 Dec of both year kinds; percentile counts by exact fractions; number spellings;
+  (i) IDF texts with numbers in exponent notation, explicit plus sign, leading zeros, `7.`, two-digit and signed
+      month / day, CRLF and tab layouts, upper / lower case flags; header values as text with blanks / leading
+      zeros / exponents or as numbers; analysis periods built from strings and from their text form (`*` = leap);
+      DDY files that are not UTF-8 (latin-1 names);
+  (j) branches of the anchored functions, each counted (`branch:...` in the evidence):
+      from_idf: rain / snow / daylight-saving field present or not (len > 18, 19, 20), sky fields present or not
+        (len > 21), ASHRAEClearSky with / without clearness field (len > 26), ASHRAETau with both / tau_b only /
+        no tau field (len > 24, 25), other sky model incl. Schedule, empty humidity value (-> 0), HumidityRatio /
+        Enthalpy / other humidity type, wrong object (assert);
+      hourly_dew_point_values: saturated hour (db < dew point) / unsaturated; dew_point: 4 humidity types;
+      hourly_sky_cover: clearness > 1 / <= 1; _get_datetimes: daylight saving, timestep 1 / sub-hourly;
+      to_idf: 3 humidity slots, ASHRAEClearSky / ASHRAETau / plain sky;
+      from_ashrae_dict_*: use_990 / use_010, pressure None, tau None / given;
+      DDY.design_days setter: list / other iterable (list()) / not iterable (TypeError) / item of wrong type;
+      DDY.location setter: days with another location are updated; DDY.from_ddy_file: missing file, wrong
+        extension, no location, no design day (IronPython branch: unreachable here);
+      EPW: missing pressure (999999 -> 101325), header without design conditions (-> None, best_available falls
+        back to approximate days), percentile 0.4 / 1 / other in best_available and to_ddy_monthly_cooling,
+        Winter / Summer / unknown day type, negative circular mean (+360), int vs float percentile in the name;
+      STAT: tau present / absent (N_A), design conditions present / absent.
 """
 import json
 import math
@@ -31,7 +76,7 @@ from harness.core import compare_batch, err_name, run_oracle_cases
 
 PROP = 'C16'
 PROOF_MODULES = ['Ladybug.Props.C16']
-GREP_MODULES = ['Ladybug.Model.DesignDay', 'Ladybug.Model.DesignDayObj', 'Ladybug.Proofs.C16Hist', 'Ladybug.Gen.DesignDayTables', 'Ladybug.Proofs.C16Lemmas', 'Ladybug.Proofs.C16Idf',
+GREP_MODULES = ['Ladybug.Model.DesignDay', 'Ladybug.Model.DesignDayObj', 'Ladybug.Model.DDYShapes', 'Ladybug.Gen.DDYSetter', 'Ladybug.Proofs.C16Hist', 'Ladybug.Gen.DesignDayTables', 'Ladybug.Proofs.C16Lemmas', 'Ladybug.Proofs.C16Idf',
                 'Ladybug.Drv.C16', 'Ladybug.Model.Psychro', 'Ladybug.Model.Cal', 'Ladybug.Py',
                 'Ladybug.DrvCore', 'Ladybug.Transc', 'Ladybug.RealInst']
 RULE = ('correspondence: design days built from plain numbers (every date of the year for the date ops, '
@@ -51,7 +96,16 @@ RULE = ('correspondence: design days built from plain numbers (every date of the
         'to_ddy, IP/SI conversion); strata: saturating days x 4 humidity types, first and last day of every '
         'month x daylight saving x sky model x 4 locations (both hemispheres), exact zeros and bounds (range 0, '
         'wind 0/360, clearness 0/1.2, tau 0), the same day with one input changed, all 12 timesteps; 3-4 fresh '
-        'interpreters with different case orders')
+        'interpreters with different case orders. Round 4: dates of the leap year (29 Feb, 1 Mar, 31 Dec) x every '
+        'sky class x daylight saving; every construction route of one design day (from_dict through JSON, '
+        'from_design_day_properties with list / tuple, analysis periods from numbers, strings and text form, '
+        'duplicate, assignment, IDF); DDY days as 12 container kinds incl. one-shot iterables x constructor / '
+        'setter / setter twice / refused; in-place edits of every returned container; header dictionaries in 4 '
+        'containers x 5 number spellings; IDF numbers in exponent / signed / zero-padded spelling, CRLF and tab '
+        'layouts, every guarded field count 17..26; latin-1 DDY files; EPW variants written by the harness (leap '
+        'year with 29 Feb, missing pressure, no design conditions) with coincident values recomputed from the raw '
+        'records; STAT monthly families 0.4/2/5/10 % against their table rows; dry-bulb profile at 1e-300..1e16; '
+        'branch counters `branch:*` in the evidence')
 TRUSTED_BASE = [
     'translator tools/extract/designday_tables.py: copies HOURLY_MULTIPLIERS, the key lists, the ep_vals '
     'layout of to_idf, the ep_fields indices/guards of from_idf and the day offset of start_moy',
@@ -66,7 +120,14 @@ TRUSTED_BASE = [
     'arithmetic; the theorem is about exact arithmetic plus a general lemma for any offset inside the day '
     '(driver op sky_float_in_day checks the IEEE offsets stay inside the day for every day of the year)',
     'EPW/STAT-derived days: from_ashrae_dict_* modelled; approximate_design_day / monthly_cooling_design_days '
-    'are checked by the oracle only (independent percentile / means of the raw EPW rows)',
+    'are checked by the oracle only (independent percentile / means of the raw EPW rows; the oracle takes the '
+    'value-at-the-hour convention of the EPW reader - record k is hour k-1, wind direction in whole degrees - and '
+    'the wet bulb of ladybug.psychrometrics for the mean coincident dew point; hours tied with the last selected '
+    'one may be exchanged)',
+    'translator tools/extract/ddy_setter.py: reads the statement order of the DDY.design_days setter '
+    '(materialise / check / store); Model/DDYShapes.lean interprets it on re-iterable and one-shot arguments',
+    'coarse sun of the oracle (Cooper declination, simple equation of time): only day / night of the radiation '
+    'with a 3 degree margin is asserted against it',
     'object state machine (Model/DesignDayObj.lean): the state is the public state; validation of setters and '
     'constructors is hand-written from designday.py / location.py and tied by the step-by-step `hist` '
     'correspondence; beam / diffuse schedule names of ASHRAEClearSky / ASHRAETau objects are outside the model; '
@@ -92,8 +153,9 @@ def _assets():
 
 
 def extract(ctx):
-    from tools.extract import designday_tables
+    from tools.extract import designday_tables, ddy_setter
     ctx.tables = designday_tables.extract()
+    ctx.ddy_setter = ddy_setter.extract()
 
 
 # ---------------------------------------------------------------------------------------------
@@ -379,10 +441,47 @@ def _good_idf_text(rng, desc):
     return vals
 
 
-def _render(rng, vals, style=None):
-    style = style or rng.choice(['lines', 'lines', 'compact', 'nocomment'])
-    if rng.random() < 0.3:
+def _respell(rng, i, v):
+    """Another legal text spelling of a number of an IDF field (what float() / int() of Python accept)."""
+    if isinstance(v, bool) or not isinstance(v, (int, float)):
+        return v
+    if i in (1, 2):                                   # month, day of month: int()
+        return rng.choice(['%02d' % v, '+%d' % v, '%d ' % v, '0%02d' % v])
+    k = rng.choice(['exp', 'EXP', 'plus', 'zero', 'dot', 'int'])
+    if k == 'exp':
+        return '%.10e' % v
+    if k == 'EXP':
+        return '%.12E' % v
+    if k == 'plus':
+        return ('+%r' % v) if v >= 0 else repr(v)
+    if k == 'zero':
+        return ('00%r' % v) if v >= 0 else repr(v)
+    if k == 'dot' and float(v) == int(v) and abs(v) < 1e9:
+        return '%d.' % v
+    if k == 'int' and float(v) == int(v) and abs(v) < 1e9:
+        return '%d' % v
+    return repr(v)
+
+
+def _render(rng, vals, style=None, plain=False):
+    style = style or rng.choice(['lines', 'lines', 'compact', 'nocomment', 'crlf', 'tabs', 'unterminated', 'nonewline'])
+    if not plain and rng.random() < 0.3:
         vals = [('YES' if v == 'Yes' else 'no' if v == 'No' else v) for v in vals]
+    if not plain and rng.random() < 0.35:
+        vals = [_respell(rng, i, v) if rng.random() < 0.5 else v for i, v in enumerate(vals)]
+    if style in ('crlf', 'tabs'):
+        out = ['SizingPeriod:DesignDay,' + ('\r\n' if style == 'crlf' else '\n')]
+        for i, v in enumerate(vals):
+            sep = ';' if i == len(vals) - 1 else ','
+            if style == 'crlf':
+                out.append('    %s%s    !- field %d\r\n' % (v, sep, i + 1))
+            else:
+                out.append('\t%s\t%s\t!- field %d\n' % (v, sep, i + 1))
+        return ''.join(out)
+    if style == 'unterminated':          # no closing semicolon: the last value is the last field
+        return 'SizingPeriod:DesignDay, ' + ', '.join(str(v) for v in vals)
+    if style == 'nonewline':             # a comment after the semicolon that no newline ends: it stays a field
+        return 'SizingPeriod:DesignDay,\n' + ',\n'.join('  %s' % v for v in vals) + ';  !- end'
     if style == 'compact':
         return 'SizingPeriod:DesignDay, ' + ', '.join(str(v) for v in vals) + ';'
     out = ['SizingPeriod:DesignDay,\n']
@@ -393,12 +492,43 @@ def _render(rng, vals, style=None):
     return ''.join(out)
 
 
+def _from_idf_branches(text):
+    """Branches of DesignDay.from_idf a text reaches (by the field count and the words of the text itself)."""
+    t = re.sub(r'!.*\n', '', text.strip().replace(';', ','))
+    f = [e.strip() for e in t.split(',')]
+    out = []
+    if not text.strip().startswith('SizingPeriod:DesignDay'):
+        return ['wrong_object']
+    n = len(f)
+    out.append('rain_field' if n > 18 else 'no_rain_field')
+    out.append('snow_field' if n > 19 else 'no_snow_field')
+    out.append('dst_field' if n > 20 else 'no_dst_field')
+    if n == 21 and f[20].lower() == 'yes':
+        out.append('no_sky_fields_with_daylight_saving')
+    if n > 9:
+        out.append('humidity:' + (f[9] if f[9] in ('HumidityRatio', 'Enthalpy') else 'wetbulb_or_dewpoint'))
+    if n > 10 and f[10] == '':
+        out.append('empty_humidity_value')
+    if n > 21:
+        m = f[21]
+        if m == 'ASHRAEClearSky':
+            out.append('clear_sky:' + ('clearness_field' if n > 26 else 'no_clearness_field'))
+        elif m in ('ASHRAETau', 'ASHRAETau2017'):
+            out.append('tau:' + ('both' if n > 25 else 'taub_only' if n > 24 else 'none'))
+        else:
+            out.append('other_sky:' + ('Schedule' if m == 'Schedule' else 'other'))
+    else:
+        out.append('no_sky_fields')
+    return out
+
+
 def _malformed(rng, vals):
     vals = list(vals)
     kind = rng.choice(['truncate', 'truncate', 'badnum', 'badtype', 'baddaytype', 'baddate', 'neg', 'winddir',
                        'clear', 'head', 'swapflag'])
     if kind == 'truncate':
-        vals = vals[:rng.randrange(0, len(vals))]
+        # the guarded tails of from_idf (fields 18..26) twice as often as the unguarded head
+        vals = vals[:rng.choice([rng.randrange(0, len(vals)), rng.randrange(min(17, len(vals)), len(vals) + 1)])]
     elif kind == 'badnum':
         vals[rng.choice([4, 5, 14, 15, 16])] = rng.choice(['abc', '', '1.2.3', 'Yes'])
     elif kind == 'badtype':
@@ -460,6 +590,10 @@ def _correspondence(ctx, rng, tmp):
 
     # --- dry-bulb profile (bit exact)
     cases = [(55.0, 25.0), (-40.0, 0.0), (0.0, 0.0), (35, 10), (30.5, 11.3)]
+    # numeric edges: tiny and huge magnitudes, sums that are not exact, halves, negative zero
+    cases += [(1e-12, 1e-13), (1e16, 1e3), (1e16, 1.0), (0.1 + 0.2, 0.3), (-0.0, 0.0), (0.5, 0.5), (2.5, 2.5),
+              (1e-300, 1e-300), (-1e-12, 1e-12), (33.3, 1e-9), (1e9 + 0.5, 12.5), (100.0, 100.0)]
+    ctx.count('branch:numeric_edges_db', 12)
     for _ in range(ctx.n(400, 5000)):
         cases.append((rng.uniform(-40, 55), rng.choice([0.0, rng.uniform(0, 25), float(rng.randrange(0, 26))])))
     compare_batch(ctx, 'db', cases, lambda c: 'db %s %s' % (_fbits(c[0]), _fbits(c[1])),
@@ -518,6 +652,23 @@ def _correspondence(ctx, rng, tmp):
         return 'ok ' + ' '.join(str(x.moy) for x in dd.hourly_datetimes)
 
     compare_batch(ctx, 'hdts', dates, lambda c: 'hdts %s %d %d' % (_b(c[0]), c[1], c[2]), impl_hdts)
+
+    # date-times (and year kind) of the header of the hourly collections, every date of both year kinds;
+    # each of the 8 collections in turn
+    colls = ('hourly_dry_bulb', 'hourly_dew_point', 'hourly_relative_humidity', 'hourly_barometric_pressure',
+             'hourly_wind_speed', 'hourly_wind_direction', 'hourly_sky_cover', 'hourly_horizontal_infrared')
+    leap_dates = [(True, m + 1, d) for m in range(12) for d in range(1, MONTH_LEN[m] + 1 + (1 if m == 1 else 0))]
+    cdates = [(c, colls[i % len(colls)]) for i, c in enumerate(dates + leap_dates)]
+
+    def impl_cdts(cc):
+        c, attr = cc
+        dd = DesignDay('n', 'SummerDesignDay', loc0, DryBulbCondition(30, 10), HumidityCondition('Wetbulb', 20),
+                       __import__('ladybug.designday', fromlist=['WindCondition']).WindCondition(2, 0),
+                       ASHRAETau(Date(c[1], c[2], c[0]), 0.4, 2.0) if c[2] % 2 else mk(c))
+        return 'ok ' + ' '.join('%d%s' % (x.moy, 'L' if x.leap_year else 'C') for x in getattr(dd, attr).datetimes)
+
+    compare_batch(ctx, 'cdts', cdates, lambda cc: 'cdts %s %d %d' % (_b(cc[0][0]), cc[0][1], cc[0][2]), impl_cdts,
+                  key=lambda cc: repr(cc[0]))
     scases = []
     for c in dates:
         pick = c[1:] in ((1, 1), (1, 2), (12, 31), (12, 30), (2, 28), (3, 1), (7, 21)) or not ctx.quick
@@ -580,10 +731,20 @@ def _correspondence(ctx, rng, tmp):
     for fn, text in _shipped_ddy_texts():
         for m in _DDAY_P.findall(text):
             texts.append(('shipped', m[0]))
-    for k, _ in texts:
+    # every guarded tail of from_idf: the object cut after exactly 17 .. 26 values
+    for d in descs[:14]:
+        vals = _good_idf_text(rng, d)
+        for cut in range(17, min(len(vals), 26) + 1):
+            texts.append(('malformed:cut', _render(rng, vals[:cut], 'lines')))
+            texts.append(('malformed:cut_unterminated', _render(rng, vals[:cut], 'unterminated')))
+            if cut % 3 == 0:
+                texts.append(('malformed:cut_nonewline', _render(rng, vals[:cut], 'nonewline')))
+    for k, t in texts:
         ctx.count('from_idf:' + k.split(':')[0])
         if ':' in k:
             ctx.count('from_idf_' + k)
+        for b in _from_idf_branches(t):
+            ctx.count('branch:from_idf:' + b)
 
     def impl_from(c):
         return 'ok ' + _show_dd(DesignDay.from_idf(c[1], loc0))
@@ -613,9 +774,22 @@ def _correspondence(ctx, rng, tmp):
         ycases.append((ld, [_rand_desc(rng, sky=rng.choice(['clear', 'tau'])) for _ in range(n)]))
         ctx.count('ddy_days:%d' % n)
 
+    shape_of = {}
+
     def impl_ddy_write(c):
+        # the model takes the design days as a list; the real DDY gets the same days in every kind of sequence
         loc = _build_loc(c[0])
-        return 'ok ' + _x(DDY(loc, [_build(d, loc) for d in c[1]]).to_file_string())
+        k = repr(c)
+        if k not in shape_of:
+            shape_of[k] = rng.choice(SHAPES)
+            ctx.count('ddy_shape:' + shape_of[k])
+        days = [_build(d, loc) for d in c[1]]
+        if rng.random() < 0.5:
+            y = DDY(loc, _shape(shape_of[k], days))
+        else:
+            y = DDY(loc, _shape(shape_of[k], days[:1]))
+            y.design_days = _shape(shape_of[k], days)
+        return 'ok ' + _x(y.to_file_string())
 
     compare_batch(ctx, 'ddy_to_string', ycases,
                   lambda c: 'ddy_to_string %d %s %s' % (len(c[1]), ' '.join(_loc_tokens(c[0])),
@@ -626,19 +800,59 @@ def _correspondence(ctx, rng, tmp):
         loc = _build_loc(c[0])
         ftexts.append(DDY(loc, [_build(d, loc) for d in c[1]]).to_file_string())
     ftexts += ['', 'Site:Location, A, 1, 2, 3, 4;\n', ftexts[0].replace('Site:Location', 'Site:Loc')]
+    # files that are not UTF-8 (latin-1 place names): the reader drops the undecodable bytes
+    LATIN = '\u00fc\u00e9\u00df'
+    lat = [t.replace('Chicago', 'Z' + LATIN[0] + 'rich').replace('Tokyo', 'Saint-' + LATIN[1] + 'tienne')
+           for t in ftexts[5:5 + ctx.n(6, 40)]]
+    lat = [('latin1', t) for t in lat if any(ch in t for ch in LATIN)]
+    ctx.count('branch:ddy_non_utf8_file', len(lat))
+    ftexts += lat
     counter = [0]
+
+    def as_read(t):
+        """The text `from_ddy_file` sees: for a latin-1 file the non-ASCII bytes are dropped."""
+        if isinstance(t, tuple):
+            return ''.join(ch for ch in t[1] if ord(ch) < 128)
+        return t
 
     def impl_ddy_read(t):
         counter[0] += 1
         p = os.path.join(tmp, 'f%d.ddy' % counter[0])
-        with open(p, 'w', encoding='utf-8') as f:
-            f.write(t)
+        if isinstance(t, tuple):
+            with open(p, 'wb') as f:
+                f.write(t[1].encode('latin-1'))
+        else:
+            with open(p, 'w', encoding='utf-8') as f:
+                f.write(t)
         y = DDY.from_ddy_file(p)
         return 'ok %d %s %s' % (len(y.design_days), _show_loc(y.location),
                                 ' '.join(_show_dd(d) for d in y.design_days))
 
-    compare_batch(ctx, 'ddy_from_string', ftexts, lambda t: 'ddy_from_string ' + _x(t), impl_ddy_read,
+    compare_batch(ctx, 'ddy_from_string', ftexts, lambda t: 'ddy_from_string ' + _x(as_read(t)), impl_ddy_read,
                   canon=_canon, key=lambda t: hash(t))
+
+    # --- the design_days setter on every container kind against the interpreted statement order (Gen.DDY)
+    scases = []
+    for sh in SHAPES:
+        for bits in ('', '1', '11', '111', '10', '01', '1101', '0'):
+            scases.append((sh, bits))
+    ctx.count('branch:ddy_setter_corr_cases', len(scases))
+    one_day = _build(_with(), loc0)
+
+    def impl_setter(c):
+        items = [one_day.duplicate() if b == '1' else 'not a day' for b in c[1]]
+        y = DDY(loc0, [one_day])
+        try:
+            y.design_days = _shape(c[0], items)
+        except AssertionError:
+            return 'err:assert' if len(y) == 1 else 'refused but changed'
+        return 'ok %d' % len(y.design_days) if len(y) == len(y.design_days) == len(list(y)) else 'inconsistent lengths'
+
+    def kind_of(sh):
+        return 'list' if sh == 'list' else ('oneshot' if sh in ONE_SHOT else 'container')
+
+    compare_batch(ctx, 'ddy_setter', scases, lambda c: 'ddy_setter %s b%s' % (kind_of(c[0]), c[1]), impl_setter,
+                  key=repr)
 
     # --- from_ashrae_dict_heating / cooling
     tables = getattr(ctx, 'tables', None)
@@ -713,9 +927,14 @@ def _expected_day(month, day):
     return [base + timedelta(hours=h) for h in range(24)]
 
 
-def _on_day(dts, month, day, minutes=(0,)):
+def _on_day(dts, month, day, minutes=(0,), leap=None):
     exp = [(month, day, h, mi) for h in range(24) for mi in minutes]
     got = [(d.month, d.day, d.hour, d.minute) for d in dts]
+    if leap is not None and got == exp:
+        # the date-times are those of the year kind the stated date carries (29 Feb exists only there)
+        flags = [bool(d.leap_year) for d in dts]
+        if flags != [bool(leap)] * len(flags):
+            return False, ['leap_year flags', flags[:2]]
     return got == exp, got[:2] + got[-1:]
 
 
@@ -799,9 +1018,13 @@ def _profile_clauses(dd, desc):
 def _dates_clauses(dd, desc, loc, timesteps=(1,)):
     """The date / radiation clauses of the statement on an existing design-day object."""
     m, d = desc['month'], desc['day']
+    leap = bool(desc.get('leap', False))
+    year = 2016 if leap else 2017
     sig = {'sky': _sky_sig(desc), 'dst': bool(desc['dst'])}
+    if leap:
+        sig['leap'] = True
     try:
-        ok, obs = _on_day(dd.hourly_datetimes, m, d)
+        ok, obs = _on_day(dd.hourly_datetimes, m, d, leap=leap)
     except Exception as e:
         return {'required': '24 date-times on %d/%d' % (m, d), 'observed': 'raises %s: %s' % (type(e).__name__, e),
                 'sig': dict(sig, clause='hourly_datetimes', raises=type(e).__name__)}
@@ -821,7 +1044,7 @@ def _dates_clauses(dd, desc, loc, timesteps=(1,)):
                     'sig': dict(sig, clause='radiation', raises=type(e).__name__)}
         colls += [('direct', rad[0]), ('diffuse', rad[1]), ('global', rad[2])]
     for nm, c in colls:
-        ok, obs = _on_day(c.datetimes, m, d)
+        ok, obs = _on_day(c.datetimes, m, d, leap=leap)
         if not ok or len(c.values) != 24:
             return {'required': '%s series on %d/%d' % (nm, m, d), 'observed': obs,
                     'sig': dict(sig, clause='series:' + nm)}
@@ -830,9 +1053,13 @@ def _dates_clauses(dd, desc, loc, timesteps=(1,)):
     sc = dd.sky_condition
     for ts in timesteps:
         shift = (30 if ts == 1 else 0) - (60 if desc['dst'] else 0)
-        base = datetime(2017, m, d)
+        base = datetime(year, m, d)
         try:
-            got = [(x.month, x.day, x.hour, x.minute) for x in sc._get_datetimes(ts)]
+            sdts = sc._get_datetimes(ts)
+            got = [(x.month, x.day, x.hour, x.minute) for x in sdts]
+            if [bool(x.leap_year) for x in sdts] != [leap] * len(sdts):
+                return {'required': 'sun date-times of a %s year' % ('leap' if leap else 'common'),
+                        'observed': [bool(x.leap_year) for x in sdts][:3], 'sig': dict(sig, clause='sky_datetimes_leap')}
         except Exception as e:
             return {'required': 'sun date-times of %d/%d' % (m, d), 'observed': 'raises %s: %s' % (type(e).__name__, e),
                     'sig': dict(sig, clause='sky_datetimes', raises=type(e).__name__)}
@@ -854,6 +1081,9 @@ def _dates_clauses(dd, desc, loc, timesteps=(1,)):
                 if abs(a - b) > 1e-6 * max(1.0, abs(b)):
                     return {'required': '%s radiation at hour %d of %d/%d = %r' % (nm, h, m, d, b),
                             'observed': a, 'sig': dict(sig, clause='radiation')}
+        res = _coarse_sun_clause(desc, loc, [list(c.values) for c in rad], sig)
+        if res:
+            return res
         # the other consumer of the sun date-times: radiation_values(location, timestep) of the sky condition
         for ts in timesteps:
             if ts == 1 or ((m, d) == (1, 1) and ts not in (2, 4)):
@@ -908,6 +1138,16 @@ def _check_case(op, inp):
         return _check_epw_history(inp)
     if op == 'order':
         return _check_order(inp)
+    if op == 'shapes':
+        return _check_shapes(inp)
+    if op == 'routes':
+        return _check_routes(inp)
+    if op == 'ashrae_shapes':
+        return _check_ashrae_shapes(inp)
+    if op == 'stat_monthly':
+        return _check_stat_monthly(inp)
+    if op == 'idf_text':
+        return _check_idf_text(inp)
     if op == 'idf_roundtrip':
         desc = inp['desc']
         sig = {'sky': _sky_sig(desc), 'h_type': desc['h_type'], 'wet_bulb_range': desc['wbr'] is not None}
@@ -982,13 +1222,15 @@ def _expected_radiation(desc, loc, ts=1):
     from ladybug.skymodel import ashrae_clear_sky, ashrae_revised_clear_sky
     sp = Sunpath.from_location(loc)
     alts = []
-    base = datetime(2017, desc['month'], desc['day'], 0, 30 if ts == 1 else 0)
+    leap = bool(desc.get('leap', False))
+    year = 2016 if leap else 2017
+    base = datetime(year, desc['month'], desc['day'], 0, 30 if ts == 1 else 0)
     for i in range(24 * ts):
         off = (60 * i) // ts if 60 % ts == 0 else int(60.0 * i / ts)
         t = base + timedelta(minutes=off) - (timedelta(hours=1) if desc['dst'] else timedelta(0))
-        if t.year != 2017:
-            t = t.replace(year=2017)            # 31 Dec 23:30 stands for the hour before 1 Jan 00:30
-        alts.append(sp.calculate_sun_from_date_time(DateTime(t.month, t.day, t.hour, t.minute)).altitude)
+        if t.year != year:
+            t = t.replace(year=year)            # 31 Dec 23:30 stands for the hour before 1 Jan 00:30
+        alts.append(sp.calculate_sun_from_date_time(DateTime(t.month, t.day, t.hour, t.minute, leap)).altitude)
     s = desc['sky']
     if s[0] == 'clear':
         dn, df = ashrae_clear_sky(alts, desc['month'], s[1])
@@ -998,14 +1240,115 @@ def _expected_radiation(desc, loc, ts=1):
     return dn, df, gl
 
 
+def _coarse_altitudes(month, day, leap, dst, loc_d):
+    """Solar altitude (degrees) at the middle of the 24 clock hours of the stated date at the location, by a
+    textbook formula written here (Cooper declination, Spencer-style equation of time; good to ~1 degree):
+    shares nothing with ladybug.sunpath, so a caller / callee convention mix-up (clock vs standard time,
+    sign of the longitude or time zone, hour-of-year of the other year kind shifted by hours) shows."""
+    n = (datetime(2016 if leap else 2017, month, day) - datetime(2016 if leap else 2017, 1, 1)).days + 1
+    ylen = 366.0 if leap else 365.0
+    decl = math.radians(23.45) * math.sin(2 * math.pi * (284 + n) / ylen)
+    b = 2 * math.pi * (n - 81) / 364.0
+    eot = 9.87 * math.sin(2 * b) - 7.53 * math.cos(b) - 1.5 * math.sin(b)          # minutes
+    lat = math.radians(loc_d['lat'] or 0)
+    out = []
+    for h in range(24):
+        clock = h + 0.5 - (1.0 if dst else 0.0)                                    # standard time
+        solar = clock + (4.0 * ((loc_d['lon'] or 0) - 15.0 * float(loc_d['tz'])) + eot) / 60.0
+        ha = math.radians(15.0 * (solar - 12.0))
+        sin_alt = math.sin(lat) * math.sin(decl) + math.cos(lat) * math.cos(decl) * math.cos(ha)
+        out.append(math.degrees(math.asin(max(-1.0, min(1.0, sin_alt)))))
+    return out
+
+
+def _coarse_sun_clause(desc, loc, rad, sig, margin=3.0):
+    """Day and night of the hourly radiation agree with the independent coarse sun: where the sun is clearly
+    up the sky model gives beam radiation (unless clearness is 0), where it is clearly down all three are 0."""
+    loc_d = {'lat': loc.latitude, 'lon': loc.longitude, 'tz': loc.time_zone}
+    alts = _coarse_altitudes(desc['month'], desc['day'], bool(desc.get('leap')), bool(desc['dst']), loc_d)
+    s = desc['sky']
+    lit = (s[0] == 'clear' and s[1] > 0) or (s[0] == 'tau' and s[1] < 3 and s[2] < 10)
+    for h, a in enumerate(alts):
+        if a > margin and lit and not rad[0][h] > 0:
+            return {'required': 'beam radiation at hour %d of %d/%d: the sun is about %.1f degrees above the '
+                                'horizon (independent formula)' % (h, desc['month'], desc['day'], a),
+                    'observed': rad[0][h], 'sig': dict(sig, clause='radiation_daytime')}
+        if a < -margin and (rad[0][h] != 0 or rad[1][h] != 0 or rad[2][h] != 0):
+            return {'required': 'no radiation at hour %d of %d/%d: the sun is about %.1f degrees below the '
+                                'horizon (independent formula)' % (h, desc['month'], desc['day'], -a),
+                    'observed': (rad[0][h], rad[1][h], rad[2][h]), 'sig': dict(sig, clause='radiation_night')}
+    return None
+
+
 _EPW_CACHE = {}
 _EPW_CALLS = {}          # what has been asked of the shared EPW object of each file so far (in order)
+
+
+_GEN_DIR = [None]
+EPW_VARIANTS = ('leap', 'nopress', 'nohdr', 'leapnohdr')
+
+
+def _gen_dir():
+    if _GEN_DIR[0] is None:
+        import atexit
+        _GEN_DIR[0] = tempfile.mkdtemp(prefix='c16_gen_')
+        atexit.register(shutil.rmtree, _GEN_DIR[0], True)
+    return _GEN_DIR[0]
+
+
+def _epw_path(fn):
+    """Path of a shipped EPW (`name.epw`) or of a variant written by the harness from a shipped one with the
+    stdlib only (`gen:<variant>:<name.epw>`, deterministic, so a replay in another process rebuilds it):
+      leap      - the header says leap year and 29 Feb is inserted after 28 Feb (a copy of 28 Feb with every
+                  weather value changed), 8784 records;
+      nopress   - station pressure missing (999999) in every record: the 101325 Pa fall-back;
+      nohdr     - no design conditions in the header: header days absent, best_available falls back;
+      leapnohdr - both."""
+    if not fn.startswith('gen:'):
+        return os.path.join(_assets(), 'epw', fn)
+    _, variant, src = fn.split(':', 2)
+    out = os.path.join(_gen_dir(), '%s_%s' % (variant, src))
+    if os.path.isfile(out):
+        return out
+    with open(os.path.join(_assets(), 'epw', src), encoding='utf-8', errors='ignore') as f:
+        lines = f.read().split('\n')
+    if variant in ('leap', 'leapnohdr'):
+        for i in range(8):
+            if lines[i].startswith('HOLIDAYS/DAYLIGHT SAVINGS'):
+                c = lines[i].split(',')
+                c[1] = 'Yes'
+                lines[i] = ','.join(c)
+        res = []
+        for ln in lines:
+            res.append(ln)
+            c = ln.split(',')
+            if len(c) > 21 and c[1] == '2' and c[2] == '28' and c[3] == '24':
+                for k, l28 in enumerate(list(res[-24:])):
+                    c = l28.split(',')
+                    c[2] = '29'
+                    c[6] = '%.1f' % (float(c[6]) + 3.7 + 0.1 * (k % 5))        # dry bulb
+                    c[7] = '%.1f' % (float(c[7]) - 1.4)                       # dew point
+                    c[20] = '%d' % ((int(float(c[20])) + 77 + 10 * k) % 360)   # wind direction
+                    c[21] = '%.1f' % (float(c[21]) + 1.3 + 0.2 * (k % 3))      # wind speed
+                    res.append(','.join(c))
+        lines = res
+    if variant in ('nohdr', 'leapnohdr'):
+        lines[1] = 'DESIGN CONDITIONS,0'
+    if variant == 'nopress':
+        for i in range(8, len(lines)):
+            c = lines[i].split(',')
+            if len(c) > 21:
+                c[9] = '999999'
+                lines[i] = ','.join(c)
+    with open(out, 'w', encoding='utf-8') as f:
+        f.write('\n'.join(lines))
+    return out
 
 
 def _epw(fn):
     from ladybug.epw import EPW
     if fn not in _EPW_CACHE:
-        _EPW_CACHE[fn] = EPW(os.path.join(_assets(), 'epw', fn))
+        _EPW_CACHE[fn] = EPW(_epw_path(fn))
     return _EPW_CACHE[fn]
 
 
@@ -1013,13 +1356,23 @@ def _raw_epw(fn):
     """Raw hourly rows of an EPW read with the csv-free stdlib: month, dry bulb, dew point, pressure,
     wind direction, wind speed."""
     rows = []
-    with open(os.path.join(_assets(), 'epw', fn), encoding='utf-8', errors='ignore') as f:
+    with open(_epw_path(fn), encoding='utf-8', errors='ignore') as f:
         lines = f.read().splitlines()
     for ln in lines[8:]:
         p = ln.split(',')
         if len(p) > 21:
-            rows.append((int(p[1]), float(p[6]), float(p[7]), float(p[9]), float(p[20]), float(p[21])))
-    return rows
+            # wind direction is a whole-degree field of the EPW format (337.5 is read as 338, 202.5 as 202)
+            rows.append((float(p[6]), float(p[7]), float(p[9]), float(int(round(float(p[20])))), float(p[21])))
+    # dry bulb, dew point, pressure and wind are values AT the stated hour (hour 1 = 01:00 ... hour 24 =
+    # midnight): the record of 31 Dec hour 24 is the value of 1 Jan 00:00.  Position k of the year is hour k
+    # counted from 1 Jan 00:00 of a year with as many hours as there are records (calendar by the stdlib).
+    rows = rows[-1:] + rows[:-1]
+    base = datetime(2016 if len(rows) == 8784 else 2017, 1, 1)
+    out = []
+    for k, r in enumerate(rows):
+        t = base + timedelta(hours=k)
+        out.append((t.month, r[0], r[1], r[2], r[3], r[4], t.day))
+    return out
 
 
 def _percentile(vals, pct):
@@ -1054,7 +1407,7 @@ def _group(tokens, word, pos):
 def _raw_header(src, fn):
     """(heating values, cooling values, pressure, monthly taub, monthly taud) read from the raw file with
     the stdlib only."""
-    path = os.path.join(_assets(), src, fn)
+    path = _epw_path(fn) if src == 'epw' else os.path.join(_assets(), src, fn)
     with open(path, encoding='utf-8', errors='ignore') as f:
         lines = f.read().splitlines()
     if src == 'epw':
@@ -1096,7 +1449,7 @@ def _check_header_days(inp, obj=None):
     sig = {'source': src, 'file': fn}
     hv, cv, press, tb, td = _raw_header(src, fn)
     if src == 'epw':
-        with open(os.path.join(_assets(), src, fn), encoding='utf-8', errors='ignore') as f:
+        with open(_epw_path(fn), encoding='utf-8', errors='ignore') as f:
             f.readline()
             m = re.search(r'(20\d\d)', f.readline().split(',Heating')[0])
         sig['handbook'] = m.group(1) if m else 'none'
@@ -1175,6 +1528,96 @@ def _check_header_days(inp, obj=None):
     return None
 
 
+def _frac_count(n_hours, pct):
+    """Number of hours in twice the percentile share of `n_hours`, by exact arithmetic."""
+    from fractions import Fraction
+    return int(Fraction(n_hours) * Fraction(str(pct)) * 2 / 100)
+
+
+def _coincident_clauses(dd, rows, pool, count, hottest, temp, pressure, sig, what):
+    """The wind speed, wind direction and (cooling days) wet bulb of a design day derived from hourly data are
+    those coincident with the `count` most extreme hours of `pool` (row indices in file order): means of the
+    raw rows, wet bulb through ladybug.psychrometrics (C09 owns it) from the mean coincident dew point.
+    Hours tied with the last selected one may be exchanged for each other (no tie rule is stated): the
+    tolerance is widened by exactly what such an exchange can change."""
+    from ladybug.psychrometrics import rel_humid_from_db_dpt, wet_bulb_from_db_rh
+    if count <= 0:
+        return None
+    key = (lambda k: -rows[k][1]) if hottest else (lambda k: rows[k][1])
+    order = sorted(pool, key=key)[:count]
+    cut = rows[order[-1]][1]
+    tied_in = [k for k in order if rows[k][1] == cut]
+    tied_all = [k for k in pool if rows[k][1] == cut]
+    sure = [k for k in order if rows[k][1] != cut]
+    ambiguous = len(tied_all) > len(tied_in)
+
+    def band(col):
+        base = sum(rows[k][col] for k in sure)
+        tv = sorted(rows[k][col] for k in tied_all)
+        n = len(tied_in)
+        return (base + sum(tv[:n])) / count, (base + sum(tv[len(tv) - n:])) / count
+
+    ws = sum(rows[k][5] for k in order) / count
+    lo, hi = band(5) if ambiguous else (ws, ws)
+    got = dd.wind_condition.wind_speed
+    if not (lo - 0.05 - 1e-9 <= got <= hi + 0.05 + 1e-9) or abs(got * 10 - round(got * 10)) > 1e-6:
+        return {'required': '%s wind speed = mean of the %d coincident hours, one decimal: %r' % (what, count, ws),
+                'observed': got, 'sig': dict(sig, clause='wind_speed')}
+    sx = sum(math.sin(math.radians(rows[k][4])) for k in order) / count
+    cx = sum(math.cos(math.radians(rows[k][4])) for k in order) / count
+    r = math.hypot(sx, cx)
+    if r > 1e-6:
+        wd = math.degrees(math.atan2(sx, cx))
+        gd = dd.wind_condition.wind_direction
+        cands = set()
+        for w in (wd - 1e-7, wd, wd + 1e-7):
+            t = int(w)
+            cands.add(t + 360 if t < 0 else t)
+        if gd not in cands:
+            slack = 0.0
+            if ambiguous:
+                slack = math.degrees(math.asin(min(1.0, 2.0 * len(tied_in) / (count * r)))) + 1.0
+            dev = min(abs(gd - wd % 360), 360 - abs(gd - wd % 360))
+            if not ambiguous or dev > slack:
+                return {'required': '%s wind direction = whole degrees of the circular mean %r of the %d '
+                                    'coincident hours' % (what, wd % 360, count), 'observed': gd,
+                        'sig': dict(sig, clause='wind_dir')}
+    if hottest:
+        dew = sum(rows[k][2] for k in order) / count
+        dlo, dhi = band(2) if ambiguous else (dew, dew)
+        try:
+            wmid = wet_bulb_from_db_rh(temp, rel_humid_from_db_dpt(temp, dew), pressure)
+            wlo = wet_bulb_from_db_rh(temp, rel_humid_from_db_dpt(temp, dlo), pressure)
+            whi = wet_bulb_from_db_rh(temp, rel_humid_from_db_dpt(temp, dhi), pressure)
+        except (ValueError, ZeroDivisionError, OverflowError):
+            return None
+        wb = dd.humidity_condition.humidity_value
+        # (the wet-bulb function is an iteration with a coarse stop: not monotone at the 0.05 K level, hence
+        #  the three evaluations and the extra 0.05 K when tied hours may be exchanged)
+        slack = 0.05 + 1e-6 + (0.05 if ambiguous else 0.0)
+        wlo, whi = (min(wlo, whi, wmid), max(wlo, whi, wmid)) if ambiguous else (wmid, wmid)
+        if dd.humidity_condition.humidity_type != 'Wetbulb' or not (wlo - slack <= wb <= whi + slack):
+            return {'required': '%s wet bulb = that of dry bulb %r and the mean coincident dew point %r at %r Pa: '
+                                '%r' % (what, temp, dew, pressure, (wlo, whi)), 'observed': wb,
+                    'sig': dict(sig, clause='wet_bulb')}
+    return None
+
+
+def _range_clause(dd, rows, month, sig, what):
+    """Daily range = mean over the days of the month of (max - min) of the hourly dry bulbs, one decimal."""
+    days = {}
+    for r in rows:
+        if r[0] == month:
+            days.setdefault(r[6], []).append(r[1])
+    rgs = [max(v) - min(v) for v in days.values()]
+    want = sum(rgs) / len(rgs)
+    got = dd.dry_bulb_condition.dry_bulb_range
+    if abs(got - want) > 0.05 + 1e-9:
+        return {'required': '%s daily range = mean daily range of month %d = %r' % (what, month, want),
+                'observed': got, 'sig': dict(sig, clause='range')}
+    return None
+
+
 def _check_approx_days(inp, epw=None):
     fn, pct = inp['file'], inp['percentile']
     sig = {'file': fn}
@@ -1189,7 +1632,7 @@ def _check_approx_days(inp, epw=None):
     press = [r[3] for r in rows]
     avg_p = sum(press) / n
     want_p = round(avg_p) if avg_p != 999999 else 101325
-    hr_count = int(87.6 * pct * 2)
+    hr_count = _frac_count(8760, pct)
     for day_type in ('WinterDesignDay', 'SummerDesignDay'):
         s = dict(sig, day_type=day_type)
         try:
@@ -1200,11 +1643,9 @@ def _check_approx_days(inp, epw=None):
                     'sig': dict(s, clause='raises', raises=type(e).__name__, leap_epw=bool(epw.is_leap_year))}
         if day_type == 'WinterDesignDay':
             want_t = _percentile(dbs, pct)
-            order = sorted(range(n), key=lambda k: dbs[k])[:hr_count]
             want_m = means.index(min(means)) + 1
         else:
             want_t = _percentile(dbs, 100 - pct)
-            order = sorted(range(n), key=lambda k: -dbs[k])[:hr_count]
             want_m = means.index(max(means)) + 1
         got_t = dd.dry_bulb_condition.dry_bulb_max
         if abs(got_t - want_t) > 1e-9:
@@ -1213,42 +1654,43 @@ def _check_approx_days(inp, epw=None):
             return {'required': 'date 21/%d' % want_m, 'observed': str(dd.sky_condition.date), 'sig': dict(s, clause='month')}
         if dd.humidity_condition.barometric_pressure != want_p:
             return {'required': want_p, 'observed': dd.humidity_condition.barometric_pressure, 'sig': dict(s, clause='pressure')}
-        ws = sum(rows[i][5] for i in order) / hr_count
-        if abs(dd.wind_condition.wind_speed - ws) > 0.0500001:
-            return {'required': 'wind speed = mean of the %d coincident hours %r' % (hr_count, ws),
-                    'observed': dd.wind_condition.wind_speed, 'sig': dict(s, clause='wind_speed')}
-        sx = sum(math.sin(math.radians(rows[i][4])) for i in order)
-        cx = sum(math.cos(math.radians(rows[i][4])) for i in order)
-        wd = math.degrees(math.atan2(sx, cx)) % 360
-        gd = dd.wind_condition.wind_direction
-        if min(abs(gd - wd), 360 - abs(gd - wd)) > 2.0:     # int() truncation + summation order
-            return {'required': 'wind direction = circular mean %r' % wd, 'observed': gd, 'sig': dict(s, clause='wind_dir')}
+        if dd.day_type != day_type or dd.location != epw.location:
+            return {'required': (day_type, str(epw.location)), 'observed': (dd.day_type, str(dd.location)),
+                    'sig': dict(s, clause='day_type_location')}
+        res = _coincident_clauses(dd, rows, list(range(n)), hr_count, day_type == 'SummerDesignDay', got_t,
+                                  want_p, s, 'approximate %s' % day_type)
+        if res:
+            return res
         if day_type == 'WinterDesignDay':
             if dd.humidity_condition.humidity_value != got_t or dd.dry_bulb_condition.dry_bulb_range != 0:
                 return {'required': 'saturated, range 0', 'observed': str(dd.humidity_condition), 'sig': dict(s, clause='wet_bulb')}
         else:
-            dew = sum(rows[i][2] for i in order) / hr_count
-            wb = dd.humidity_condition.humidity_value
-            if not (min(dew, got_t) - 0.06 <= wb <= got_t + 0.06):
-                return {'required': 'coincident wet bulb between mean dew point %r and dry bulb %r' % (dew, got_t),
-                        'observed': wb, 'sig': dict(s, clause='wet_bulb')}
-            rg = dd.dry_bulb_condition.dry_bulb_range
-            if not 0 <= rg <= max(dbs) - min(dbs):
-                return {'required': 'daily range within the data', 'observed': rg, 'sig': dict(s, clause='range')}
+            res = _range_clause(dd, rows, want_m, s, 'approximate %s' % day_type)
+            if res:
+                return res
     if inp.get('monthly'):
-        mdays = epw.monthly_cooling_design_days(inp['monthly'])
+        mp = inp['monthly']
+        mdays = epw.monthly_cooling_design_days(mp)
         if len(mdays) != 12:
             return {'required': 12, 'observed': len(mdays), 'sig': dict(sig, clause='monthly_count')}
         for m, dd in enumerate(mdays, 1):
-            mv = [r[1] for r in rows if r[0] == m]
-            want_t = _percentile(mv, 100 - inp['monthly'])
+            pool = [k for k in range(n) if rows[k][0] == m]
+            mv = [rows[k][1] for k in pool]
+            want_t = _percentile(mv, 100 - mp)
+            ms = dict(sig, clause='monthly', month=m)
             if abs(dd.dry_bulb_condition.dry_bulb_max - want_t) > 1e-9 or \
                     (dd.sky_condition.date.month, dd.sky_condition.date.day) != (m, 21) or \
-                    dd.humidity_condition.barometric_pressure != want_p:
+                    dd.humidity_condition.barometric_pressure != want_p or dd.day_type != 'SummerDesignDay':
                 return {'required': (want_t, m, 21, want_p),
                         'observed': (dd.dry_bulb_condition.dry_bulb_max, str(dd.sky_condition.date),
-                                     dd.humidity_condition.barometric_pressure),
-                        'sig': dict(sig, clause='monthly', month=m)}
+                                     dd.humidity_condition.barometric_pressure), 'sig': ms}
+            res = _coincident_clauses(dd, rows, pool, _frac_count(len(pool), mp), True, want_t, want_p,
+                                      dict(sig, month=m, leap_epw=(n == 8784)), 'monthly cooling day %d' % m)
+            if res is None:
+                res = _range_clause(dd, rows, m, dict(sig, month=m), 'monthly cooling day %d' % m)
+            if res:
+                res['sig']['clause'] = 'monthly:' + res['sig']['clause']
+                return res
     return None
 
 
@@ -1286,9 +1728,9 @@ def _isnum(v):
     return isinstance(v, (int, float)) and not isinstance(v, bool)
 
 
-def _valid_date(a):
+def _valid_date(a, leap=False):
     try:
-        datetime(2017, a[0], a[1])
+        datetime(2016 if leap else 2017, a[0], a[1])
         return True
     except (ValueError, TypeError):
         return False
@@ -1345,7 +1787,7 @@ def _spec_step(st, op):
     if k == 'date':
         if a is None:
             return ref('assert')
-        return ok(month=a[0], day=a[1]) if _valid_date(a) else ref('value')
+        return ok(month=a[0], day=a[1], leap=False) if _valid_date(a) else ref('value')     # Date(m, d): common year
     if k == 'clearness':
         if sky[0] != 'clear':
             return ref('attr')
@@ -1384,19 +1826,19 @@ def _spec_step(st, op):
     if k == 'new_sky':
         if a is None:
             return ref('assert')
-        if not _valid_date([a['month'], a['day']]):
+        if not _valid_date([a['month'], a['day']], bool(a.get('leap'))):
             return ref('value')
         e = _sky_ok(a['sky'])
         if e:
             return ref(e)
-        return ok(sky=list(a['sky']), month=a['month'], day=a['day'], dst=bool(a['dst']))
+        return ok(sky=list(a['sky']), month=a['month'], day=a['day'], dst=bool(a['dst']), leap=bool(a.get('leap')))
     raise ValueError('unknown history op %r' % (k,))
 
 
 def _build_sky(a):
     from ladybug.designday import ASHRAEClearSky, ASHRAETau, _SkyCondition
     from ladybug.dt import Date
-    date = Date(a['month'], a['day'])
+    date = Date(a['month'], a['day'], bool(a.get('leap')))
     s = a['sky']
     if s[0] == 'clear':
         return ASHRAEClearSky(date, s[1], a['dst'])
@@ -1527,6 +1969,8 @@ def _read0(dd, q, fresh):
         return [dd == fresh, fresh == dd, hash(dd) == hash(fresh), dd.duplicate() == dd, not (dd != fresh)]
     if q == 'idf_rt':
         return DesignDay.from_idf(dd.to_idf(), dd.location) == dd
+    if q == 'scribble':
+        return _scribble(dd)
     raise ValueError('unknown read %r' % (q,))
 
 
@@ -1620,6 +2064,8 @@ def _rand_reads(rng, k=None):
         qs.insert(rng.randrange(len(qs) + 1), ['dew_for', round(rng.uniform(-20, 45), 1), rng.choice([0, 8.5, 20])])
     if rng.random() < 0.3:
         qs.append(rng.choice(qs))               # the same question asked twice
+    if rng.random() < 0.25:
+        qs.insert(rng.randrange(len(qs) + 1), 'scribble')      # edit every returned container in place
     return qs
 
 
@@ -1648,6 +2094,12 @@ def _gen_history(rng, count=None, refused_first=False, n=None):
     desc = _rand_desc(rng)
     if rng.random() < 0.8:
         desc['wbr'] = None
+    if rng.random() < 0.15:                    # a date of the leap year (29 Feb among them)
+        desc['leap'] = True
+        if rng.random() < 0.5:
+            desc['month'], desc['day'] = rng.choice([(2, 29), (3, 1), (12, 31), (2, 28)])
+        if count:
+            count('hist_leap_start')
     loc = _rand_loc(rng)
     st = {'desc': desc, 'loc': loc}
     ops = []
@@ -1675,8 +2127,9 @@ def _gen_history(rng, count=None, refused_first=False, n=None):
         if full:
             rng.shuffle(qs)
             d = st['desc']
-            if d['sky'][0] != 'base' and d['wbr'] is None:
+            if d['sky'][0] != 'base' and d['wbr'] is None and not d.get('leap'):
                 qs.append('idf_rt')
+            qs.insert(rng.randrange(len(qs)), 'scribble')
         ops.append(['read', qs, bool(full and cons[0]), [1, rng.choice(TIMESTEPS)]])
 
     def refused():
@@ -1685,12 +2138,14 @@ def _gen_history(rng, count=None, refused_first=False, n=None):
         choices = [('db_range', rng.choice([-6.0, -0.5, 'abc', None])), ('db_max', rng.choice(['abc', None])),
                    ('h_type', rng.choice(['RelativeHumidity', 'wetbulb', ''])), ('h_value', rng.choice([None, '0.5'])),
                    ('pressure', rng.choice(['abc', None])), ('ws', rng.choice([None, '3'])),
-                   ('wd', rng.choice([361, -0.5, 'abc', 720.0])), ('date', rng.choice([[2, 30], [13, 1], [4, 31], None])),
+                   ('wd', rng.choice([361, -0.5, 'abc', 720.0])), ('date', rng.choice([[2, 30], [13, 1], [4, 31], None, [2, 29]])),
                    ('name', rng.choice([None, 5])), ('day_type', rng.choice(['Saturday', 'summerdesignday', ''])),
                    ('loc', rng.choice([None, dict(_rand_loc(rng), lat=95.0), dict(_rand_loc(rng), lon=-181.0)])),
                    ('new_sky', rng.choice([None, {'sky': ['clear', 1.5], 'month': 7, 'day': 21, 'dst': True},
                                            {'sky': ['tau', 'abc', 2.0, False], 'month': 1, 'day': 1, 'dst': False},
-                                           {'sky': ['clear', 1], 'month': 2, 'day': 30, 'dst': not d['dst']}])),
+                                           {'sky': ['clear', 1], 'month': 2, 'day': 30, 'dst': not d['dst']},
+                                           {'sky': ['tau', 0.4, 2.0, True], 'month': 2, 'day': 29, 'dst': not d['dst']},
+                                           {'sky': ['clear', 1], 'month': 2, 'day': 30, 'dst': False, 'leap': True}])),
                    ('new_db', rng.choice([[d['db_max'] + 5, -2.0, 'DefaultMultipliers', ''], ['abc', 5, 'DefaultMultipliers', '']])),
                    ('new_hum', rng.choice([['Foo', 10.0, 101325, True, True, '', None],
                                            [d['h_type'], 'abc', 90000, not d['rain'], not d['snow'], 'S', None]])),
@@ -1746,6 +2201,10 @@ def _gen_history(rng, count=None, refused_first=False, n=None):
         elif r < 0.72:
             a = {'sky': _rand_skyd(rng), 'dst': rng.random() < 0.5}
             a['month'], a['day'] = _hist_date(rng)
+            if rng.random() < 0.25:
+                a['leap'] = True
+                if rng.random() < 0.5:
+                    a['month'], a['day'] = rng.choice([(2, 29), (3, 1), (12, 31)])
             emit('new_sky', a)
         elif r < 0.77:
             emit('loc', _rand_loc(rng))
@@ -1807,7 +2266,7 @@ def _arg(v):
 
 def _sky_arg_tokens(a):
     if a is None:
-        return ['O', 'O', 'B0', 'O', 'O', 'O', 'B0']
+        return ['O', 'O', 'B0', 'O', 'O', 'O', 'B0', 'B0']
     s = a['sky']
     if s[0] == 'clear':
         rest = ['clear', _arg(s[1]), 'O', 'B0']
@@ -1815,7 +2274,7 @@ def _sky_arg_tokens(a):
         rest = ['tau', _arg(s[1]), _arg(s[2]), 'B' + _b(s[3])]
     else:
         rest = ['base', _arg(s[1]), _arg(s[2]), 'B0']
-    return [_arg(a['month']), _arg(a['day']), 'B' + _b(a['dst'])] + rest
+    return [_arg(a['month']), _arg(a['day']), 'B' + _b(a['dst'])] + rest + ['B' + _b(bool(a.get('leap')))]
 
 
 def _op_tokens(op):
@@ -2098,7 +2557,7 @@ def _check_epw_history(inp):
     from ladybug.epw import EPW
     from ladybug.ddy import DDY
     fn = inp['file']
-    epw = EPW(os.path.join(_assets(), 'epw', fn))
+    epw = EPW(_epw_path(fn))
     tmp = None
     try:
         for i, op in enumerate(inp['ops']):
@@ -2129,6 +2588,21 @@ def _check_epw_history(inp):
                 if want != got or _canon('ok ' + _show_loc(back.location)) != _canon('ok ' + _show_loc(epw.location)):
                     res = {'required': 'to_ddy(%s) reads back as best_available_design_days: %s' % (op[1], want),
                            'observed': got, 'sig': dict(sig, clause='epw_history:to_ddy')}
+            elif k == 'to_ddy_monthly':
+                tmp = tmp or tempfile.mkdtemp(prefix='c16_')
+                path = os.path.join(tmp, 'outm%d.ddy' % i)
+                epw.to_ddy_monthly_cooling(path, op[1], op[2])
+                back = DDY.from_ddy_file(path)
+                days = [epw.best_available_design_days(op[1])[0]] + list(epw.monthly_cooling_design_days(op[2]))
+                want = [_canon('ok ' + _show_dd(d)).split(' ')[2:] for d in days]
+                got = [_canon('ok ' + _show_dd(d)).split(' ')[2:] for d in back.design_days]
+                names_ok = len(back.design_days) == 13 and back.design_days[0].name == days[0].name and all(
+                    b.name.startswith(d.name + ' (') for b, d in zip(back.design_days[1:], days[1:]))
+                if want != got or not names_ok or \
+                        _canon('ok ' + _show_loc(back.location)) != _canon('ok ' + _show_loc(epw.location)):
+                    res = {'required': 'to_ddy_monthly_cooling(%s, %s) reads back as the heating day + the 12 monthly '
+                                       'days' % (op[1], op[2]), 'observed': [len(got), [n.name for n in back.design_days][:3]],
+                           'sig': dict(sig, clause='epw_history:to_ddy_monthly')}
             elif k == 'ip':
                 epw.convert_to_ip()
             elif k == 'si':
@@ -2282,6 +2756,14 @@ def _order_cases(rng):
     cases.append(['dates', {'desc': _with(month=1, day=1, dst=False), 'loc': FIXED_LOC, 'timesteps': [1, 4]}])
     cases.append(['dates', {'desc': _with(month=7, day=21, dst=True, sky=['tau', 0.4, 2.3, False]),
                             'loc': ALT_LOCS[2], 'timesteps': [1, 3]}])
+    # round 4: leap dates on both sky models, a one-shot iterable, every construction route
+    cases.append(['dates', {'desc': _with(month=2, day=29, leap=True, sky=['tau', 0.45, 2.1, False]), 'loc': FIXED_LOC,
+                            'timesteps': [1, 2]}])
+    cases.append(['dates', {'desc': _with(month=12, day=31, leap=True, dst=True, sky=['clear', 1.0]), 'loc': ALT_LOCS[0],
+                            'timesteps': [1, 12]}])
+    cases.append(['routes', {'desc': _with(month=3, day=1, leap=True, sky=['tau', 0.4, 2.2, True]), 'loc': FIXED_LOC}])
+    cases.append(['shapes', {'loc': FIXED_LOC, 'days': [_with(name='A day'), _with(name='B day', month=1, day=1)],
+                             'shape': rng.choice(ONE_SHOT), 'via': rng.choice(['init', 'setter', 'setter_twice'])}])
     for _ in range(3):
         cases += _one_changed(rng)
     for i in range(6):
@@ -2399,6 +2881,551 @@ def _saturating_desc(rng, h_type):
     return _with(db_max=db, db_range=rg, pressure=p, h_type=h_type, h_value=v)
 
 
+# ---------------------------------------------------------------------------------------------
+# round 4: container shapes and one-shot iterables, aliasing of returned containers, construction routes
+# (sibling classes / twins), string-built helpers
+
+
+def _scribble(dd):
+    """Edit in place every container the design day hands out (lists of the conditions, values and metadata
+    of the hourly collections, radiation lists, dictionaries): nothing of it may be shared with the object
+    or with a later answer.  Returns True (the later reads of the history do the checking)."""
+    def wreck(v):
+        try:
+            if isinstance(v, list):
+                v.reverse()
+                v.append(-999.0)
+                del v[0]
+            elif isinstance(v, dict):
+                for k in list(v):
+                    wreck(v[k])
+                    v[k] = 'scribbled' if not isinstance(v[k], (list, dict)) else v[k]
+            elif hasattr(v, 'header') and hasattr(v, 'values'):         # a data collection
+                try:
+                    v[0] = -999.0
+                    v[len(v) - 1] = 999.0
+                except Exception:
+                    pass
+                try:
+                    v.header.metadata['city'] = 'scribbled'
+                    v.header.metadata['scribble'] = 1
+                except Exception:
+                    pass
+        except Exception:
+            pass
+
+    calls = [lambda: dd.dry_bulb_condition.hourly_values,
+             lambda: dd.humidity_condition.hourly_dew_point_values(dd.dry_bulb_condition),
+             lambda: dd.humidity_condition.hourly_pressure, lambda: dd.wind_condition.hourly_values,
+             lambda: dd.wind_condition.hourly_wind_dirs, lambda: dd.sky_condition.hourly_sky_cover,
+             lambda: dd.hourly_dry_bulb, lambda: dd.hourly_dew_point, lambda: dd.hourly_relative_humidity,
+             lambda: dd.hourly_barometric_pressure, lambda: dd.hourly_wind_speed, lambda: dd.hourly_wind_direction,
+             lambda: dd.hourly_sky_cover, lambda: dd.hourly_horizontal_infrared, lambda: dd.to_dict(),
+             lambda: dd.dry_bulb_condition.to_dict(), lambda: dd.humidity_condition.to_dict(),
+             lambda: dd.sky_condition.to_dict(), lambda: dd.wind_condition.to_dict()]
+    for c in calls:
+        try:
+            wreck(c())
+        except Exception:
+            pass
+    try:
+        rad = dd.sky_condition.radiation_values(dd.location)
+        for r in rad:
+            wreck(r)
+        for c in dd.hourly_solar_radiation:
+            wreck(c)
+    except Exception:
+        pass
+    return True
+
+
+class _OneShot(object):
+    """An iterable that can be walked exactly once and has no length (like a generator)."""
+    def __init__(self, items):
+        self._it = iter(list(items))
+
+    def __iter__(self):
+        return self
+
+    def __next__(self):
+        return next(self._it)
+
+    next = __next__
+
+
+SHAPES = ('list', 'tuple', 'generator', 'iter', 'map', 'filter', 'dict_values', 'deque', 'reversed', 'oneshot',
+          'zip_gen', 'chain')
+ONE_SHOT = ('generator', 'iter', 'map', 'filter', 'reversed', 'oneshot', 'zip_gen', 'chain')
+
+
+def _shape(name, items):
+    """The same items, in the same order, in another kind of container / iterable."""
+    import collections
+    import itertools
+    items = list(items)
+    if name == 'list':
+        return items
+    if name == 'tuple':
+        return tuple(items)
+    if name == 'generator':
+        return (x for x in items)
+    if name == 'iter':
+        return iter(items)
+    if name == 'map':
+        return map(lambda x: x, items)
+    if name == 'filter':
+        return filter(lambda x: True, items)
+    if name == 'dict_values':
+        # keys in non-sorted (descending) insertion order; the values keep the order of the items
+        return {'k%03d' % (len(items) - k): it for k, it in enumerate(items)}.values()
+    if name == 'deque':
+        return collections.deque(items)
+    if name == 'reversed':
+        return reversed(items[::-1])
+    if name == 'oneshot':
+        return _OneShot(items)
+    if name == 'zip_gen':
+        return (a for a, _ in zip(items, itertools.count()))
+    if name == 'chain':
+        return itertools.chain(items[:1], items[1:])
+    raise ValueError('unknown shape ' + name)
+
+
+def _check_shapes(inp):
+    """A DDY given its design days in any kind of sequence - list, tuple, generator, iter(), map, filter,
+    dict view, deque, a one-shot iterable - holds exactly those days, writes the same file as the DDY built
+    from the plain list, and the file reads back equal.  Refused inputs (not iterable, an item that is no
+    design day) leave the DDY as it was."""
+    from ladybug.ddy import DDY
+    from ladybug.designday import DesignDay
+    loc = _build_loc(inp['loc'])
+    descs = inp['days']
+    shape, via = inp['shape'], inp['via']
+    sig = {'shape': shape, 'via': via, 'one_shot': shape in ONE_SHOT}
+    ref_days = [_build(d, _build_loc(inp['loc'])) for d in descs]
+    ref = DDY(_build_loc(inp['loc']), list(ref_days))
+    objs = [_build(d, loc) for d in descs]
+    try:
+        if via == 'init':
+            y = DDY(loc, _shape(shape, objs))
+        elif via == 'setter':
+            y = DDY(loc, [_build(_with(name='Placeholder'), loc)])
+            y.design_days = _shape(shape, objs)
+        elif via == 'setter_twice':
+            y = DDY(loc, _shape(shape, [_build(_with(name='First'), loc), _build(_with(name='Second'), loc)]))
+            y.design_days = _shape(shape, objs)
+        elif via == 'refused':
+            y = DDY(loc, _shape(shape, objs))
+            for bad, err in ((_shape(shape, objs[:1] + ['not a day']), AssertionError), (5, TypeError),
+                             (_shape(shape, [None]), AssertionError)):
+                try:
+                    y.design_days = bad
+                    return {'required': 'design_days = %r is refused' % (bad,), 'observed': 'accepted',
+                            'sig': dict(sig, clause='shapes:refusal')}
+                except err:
+                    pass
+        elif via == 'to_file':
+            # the text of the file from a DDY whose days came in this shape, asked twice
+            y = DDY(loc, _shape(shape, objs))
+            if y.to_file_string() != y.to_file_string():
+                return {'required': 'to_file_string twice the same', 'observed': 'differs',
+                        'sig': dict(sig, clause='shapes:twice')}
+        else:
+            raise ValueError('unknown via ' + via)
+    except (AssertionError, TypeError) as e:
+        return {'required': 'a DDY from the %d design days given as %s' % (len(objs), shape),
+                'observed': 'raises %s: %s' % (type(e).__name__, e), 'sig': dict(sig, clause='shapes:raises')}
+    if len(y) != len(ref_days) or len(y.design_days) != len(ref_days):
+        return {'required': 'the DDY holds the %d design days it was given (as %s, via %s)' % (len(ref_days), shape, via),
+                'observed': (len(y), len(y.design_days)), 'sig': dict(sig, clause='shapes:count')}
+    if list(y.design_days) != ref_days or [d for d in y] != ref_days or [d for d in y] != ref_days:
+        return {'required': 'the DDY holds the design days it was given, in order', 'observed':
+                [d.name for d in y.design_days], 'sig': dict(sig, clause='shapes:days')}
+    if y.to_file_string() != ref.to_file_string() or y != ref or hash(y) != hash(ref):
+        return {'required': 'same file text / equal DDY as from the plain list', 'observed': 'differs',
+                'sig': dict(sig, clause='shapes:text')}
+    if ref_days and (ref_days[0] not in y or y[len(ref_days) - 1] != ref_days[-1]):
+        return {'required': 'contains / indexing', 'observed': 'differs', 'sig': dict(sig, clause='shapes:index')}
+    kw = ref_days[0].name.split(' ')[0] if ref_days else 'x'
+    if y.filter_by_keyword(kw) != [d for d in ref_days if kw in d.name]:
+        return {'required': 'filter_by_keyword(%r)' % kw, 'observed': [d.name for d in y.filter_by_keyword(kw)],
+                'sig': dict(sig, clause='shapes:filter')}
+    dup = y.duplicate()
+    if dup != y or list(dup.design_days) != ref_days:
+        return {'required': 'duplicate equal', 'observed': 'differs', 'sig': dict(sig, clause='shapes:duplicate')}
+    if ref_days and all(_writable(d) and not d.get('leap') for d in descs):
+        res = _ddy_rt(y, dict(sig, clause0='shapes'))
+        if res:
+            return res
+        try:
+            yd = DDY.from_dict(json.loads(json.dumps(y.to_dict())))
+        except Exception as e:
+            return {'required': 'DDY.from_dict(to_dict())', 'observed': 'raises %s: %s' % (type(e).__name__, e),
+                    'sig': dict(sig, clause='shapes:dict')}
+        if yd != ref:
+            return {'required': 'DDY.from_dict(to_dict()) equal', 'observed': 'differs', 'sig': dict(sig, clause='shapes:dict')}
+    return None
+
+
+def _obs(dd):
+    return [_read(dd, q, dd) for q in ALL_READS[:-1] + [['sdts', 1], ['sdts', 6]]]
+
+
+def _check_routes(inp):
+    """The same design day built through every construction route - constructor, from_design_day_properties
+    (sky properties as list and as tuple), to_dict/from_dict (also through JSON and inside a DDY dictionary),
+    duplicate, sky condition from an analysis period (built from numbers and from its text form), conditions
+    assigned one by one, IDF text - is one design day: equal, same hash, every observable the same; and the
+    statement's clauses hold on it."""
+    from ladybug.designday import (DesignDay, DryBulbCondition, HumidityCondition, WindCondition, ASHRAEClearSky,
+                                   ASHRAETau)
+    from ladybug.analysisperiod import AnalysisPeriod
+    from ladybug.dt import Date
+    from ladybug.ddy import DDY
+    import copy
+    desc = inp['desc']
+    loc = _build_loc(inp['loc'])
+    base = _build(desc, loc)
+    m, d, leap = desc['month'], desc['day'], bool(desc.get('leap'))
+    s = desc['sky']
+    sig = {'sky': _sky_sig(desc), 'h_type': desc['h_type'], 'leap': leap}
+    routes = [('duplicate', lambda: base.duplicate()), ('copy', lambda: copy.copy(base)),
+              ('dict', lambda: DesignDay.from_dict(base.to_dict())),
+              ('json', lambda: DesignDay.from_dict(json.loads(json.dumps(base.to_dict())))),
+              ('ddy_dict', lambda: DDY.from_dict(json.loads(json.dumps(DDY(loc, (base,)).to_dict()))).design_days[0]),
+              ('from_design_day', lambda: DDY.from_design_day(base)[0])]
+
+    def assign():
+        o = _build(_with(name=desc['name'], day_type=desc['day_type'],
+                         sky=['tau', 0.3, 2.0, True] if s[0] == 'clear' else ['clear', 0.5]), _build_loc(ALT_LOCS[1]))
+        o.location = loc
+        o.dry_bulb_condition = base.dry_bulb_condition.duplicate()
+        o.humidity_condition = base.humidity_condition.duplicate()
+        o.wind_condition = base.wind_condition.duplicate()
+        o.sky_condition = base.sky_condition.duplicate()
+        return o
+    routes.append(('assign', assign))
+    plain = desc['mod_type'] == 'DefaultMultipliers' and desc['mod_sched'] == '' and not desc['rain'] and \
+        not desc['snow'] and desc['sched'] == '' and desc['wbr'] is None and not desc['dst'] and s[0] != 'base'
+    if plain:
+        model = 'ASHRAEClearSky' if s[0] == 'clear' else ('ASHRAETau2017' if s[3] else 'ASHRAETau')
+        for nm, seq in (('props_list', list), ('props_tuple', tuple)):
+            routes.append((nm, lambda seq=seq: DesignDay.from_design_day_properties(
+                desc['name'], desc['day_type'], loc, Date(m, d, leap), desc['db_max'], desc['db_range'],
+                desc['h_type'], desc['h_value'], desc['pressure'], desc['ws'], desc['wd'], model,
+                seq(s[1:2] if s[0] == 'clear' else s[1:3]))))
+    if s[0] != 'base':
+        def with_sky(ap):
+            sky = ASHRAEClearSky.from_analysis_period(ap, s[1], desc['dst']) if s[0] == 'clear' else \
+                ASHRAETau.from_analysis_period(ap, s[1], s[2], s[3], desc['dst'])
+            o = base.duplicate()
+            o.sky_condition = sky
+            return o
+        routes.append(('analysis_period', lambda: with_sky(AnalysisPeriod(m, d, 0, m, d, 23, 1, leap))))
+        routes.append(('analysis_period_text', lambda: with_sky(AnalysisPeriod.from_string(
+            '%d/%d to %d/%d between 0 and 23 @1%s' % (m, d, m, d, '*' if leap else '')))))
+        routes.append(('analysis_period_strings', lambda: with_sky(AnalysisPeriod(
+            str(m), '%02d' % d, '0', '%02d' % m, str(d), '23', 1, leap))))
+    if _writable(desc) and not leap:
+        routes.append(('idf', lambda: DesignDay.from_idf(base.to_idf(), loc)))
+    want = _obs(base)
+    for nm, fn in routes:
+        rs = dict(sig, route=nm)
+        try:
+            o = fn()
+        except Exception as e:
+            return {'required': 'the design day through route %s' % nm, 'observed': 'raises %s: %s' % (type(e).__name__, e),
+                    'sig': dict(rs, clause='routes:raises', raises=type(e).__name__)}
+        if not (o == base and base == o and hash(o) == hash(base) and not (o != base)):
+            a, b = _canon('ok ' + _show_dd(base)).split(' '), _canon('ok ' + _show_dd(o)).split(' ')
+            return {'required': 'route %s gives an equal design day' % nm,
+                    'observed': 'unequal; canonical tokens differing: %s' % [i for i, (x, y) in enumerate(zip(a, b)) if x != y],
+                    'sig': dict(rs, clause='routes:equal')}
+        got = _obs(o)
+        if nm == 'idf':
+            # numbers given as int come back as float (20 -> 20.0): an equal design day whose text differs
+            k = ALL_READS.index('idf')
+            got = got[:k] + [want[k]] + got[k + 1:]
+        if got != want:
+            return {'required': 'route %s: every observable as from the constructor' % nm,
+                    'observed': 'differs at %s' % _first_diff(got, want), 'sig': dict(rs, clause='routes:observables')}
+    # answers already handed out stay what they were when a SECOND design day (other numbers, other date,
+    # other sky class) is built and asked in the same process, and vice versa
+    held = _held_answers(base)
+    snap = [_plain(h) for h in held]
+    other_desc = _with(db_max=float(desc['db_max']) - 3.25, db_range=float(desc['db_range']) + 1.5,
+                       h_type='Dewpoint', h_value=float(desc['db_max']) - 20.0, pressure=float(desc['pressure']) - 777.0,
+                       ws=float(desc['ws']) + 1.25, wd=(float(desc['wd']) + 33.0) % 360, month=(m % 12) + 1, day=min(d, 28),
+                       dst=not desc['dst'], sky=['tau', 0.33, 2.22, True] if s[0] == 'clear' else ['clear', 0.77])
+    other = _build(other_desc, _build_loc(ALT_LOCS[0]))
+    held2 = _held_answers(other)
+    snap2 = [_plain(h) for h in held2]
+    again = [_plain(h) for h in _held_answers(base)]
+    for k, (h, sn) in enumerate(zip(held, snap)):
+        if _plain(h) != sn or again[k] != sn:
+            return {'required': 'answer %d of the first design day is unchanged after a second design day was built '
+                                'and asked' % k, 'observed': 'differs at %s' % _first_diff(_plain(h), sn),
+                    'sig': dict(sig, clause='routes:aliasing', answer=k)}
+    for k, (h, sn) in enumerate(zip(held2, snap2)):
+        if _plain(h) != sn:
+            return {'required': 'answer %d of the second design day is unchanged after the first one was asked again' % k,
+                    'observed': 'differs at %s' % _first_diff(_plain(h), sn),
+                    'sig': dict(sig, clause='routes:aliasing', answer=k)}
+    res = _profile_clauses(base, desc) if inp.get('consistent', True) else None
+    if res is None and not (desc['dst'] and (m, d) == (1, 1)):
+        res = _dates_clauses(base, desc, loc, [1])
+    if res:
+        res['sig'] = dict(res['sig'], clause='routes:' + str(res['sig'].get('clause')))
+    return res
+
+
+def _held_answers(dd):
+    """The containers a design day hands out (kept by the caller, not copied)."""
+    out = [dd.dry_bulb_condition.hourly_values, dd.humidity_condition.hourly_dew_point_values(dd.dry_bulb_condition),
+           dd.humidity_condition.hourly_pressure, dd.wind_condition.hourly_values, dd.wind_condition.hourly_wind_dirs,
+           dd.sky_condition.hourly_sky_cover, dd.hourly_dry_bulb, dd.hourly_dew_point, dd.hourly_relative_humidity,
+           dd.hourly_barometric_pressure, dd.hourly_wind_speed, dd.hourly_wind_direction, dd.hourly_sky_cover,
+           dd.hourly_horizontal_infrared, dd.hourly_datetimes, dd.sky_condition._get_datetimes(2), dd.to_dict()]
+    try:
+        out += list(dd.sky_condition.radiation_values(dd.location)) + list(dd.hourly_solar_radiation)
+    except AttributeError:
+        pass
+    return out
+
+
+def _plain(v):
+    """A deep plain copy of an answer (floats by repr)."""
+    if hasattr(v, 'header') and hasattr(v, 'values'):
+        return ['collection', [repr(x) for x in v.values], [(t.month, t.day, t.hour, t.minute, bool(t.leap_year)) for t in v.datetimes],
+                sorted((str(k), str(x)) for k, x in v.header.metadata.items()), str(v.header.unit)]
+    if isinstance(v, dict):
+        return ['dict', sorted((str(k), _plain(x)) for k, x in v.items())]
+    if isinstance(v, (list, tuple)):
+        return ['seq', [_plain(x) for x in v]]
+    if hasattr(v, 'moy'):
+        return ['dt', v.moy, bool(v.leap_year)]
+    return repr(v)
+
+
+def _check_ashrae_shapes(inp):
+    """from_ashrae_dict_heating / cooling: the header values as a dictionary in any insertion order, as an
+    OrderedDict, with surplus keys, numbers in any text spelling (blanks, leading zero, exponent) or as
+    numbers; tau as list or tuple.  The design day carries the stated values whatever the shape."""
+    import collections
+    from ladybug.designday import DesignDay, ASHRAETau, ASHRAEClearSky
+    from ladybug.location import Location
+    vals = inp['values']            # key -> number
+    kind, use2, tau = inp['kind'], inp['use_second'], inp.get('tau')
+    loc = Location(inp.get('city', 'Shape City'))
+    sig = {'kind': kind, 'spelling': inp['spelling'], 'container': inp['container']}
+
+    def spell(k, v):
+        sp = inp['spelling']
+        if k == 'Month':
+            return {'plain': str(int(v)), 'blank': ' %d ' % v, 'zero': '%02d' % v, 'number': int(v),
+                    'exp': str(int(v))}[sp]
+        return {'plain': str(v), 'blank': '  %s ' % v, 'zero': ('0%s' % v) if v >= 0 else str(v), 'number': v,
+                'exp': '%.6E' % v}[sp]
+    items = [(k, spell(k, v)) for k, v in vals.items()]
+    c = inp['container']
+    if c == 'reversed':
+        data = dict(reversed(items))
+    elif c == 'ordered':
+        data = collections.OrderedDict(sorted(items))
+    elif c == 'surplus':
+        data = dict([('ZZ_extra', 'x')] + items + [('Extra', '1')])
+    else:
+        data = dict(items)
+    try:
+        if kind == 'heating':
+            dd = DesignDay.from_ashrae_dict_heating(data, loc, use2, inp.get('pressure'))
+            want = (vals['DB990' if use2 else 'DB996'], 0, vals['DB990' if use2 else 'DB996'], vals['WS_DB996'],
+                    vals['WD_DB996'])
+        else:
+            t = None if tau is None else (tuple(tau) if inp.get('tau_shape') == 'tuple' else list(tau))
+            dd = DesignDay.from_ashrae_dict_cooling(data, loc, use2, inp.get('pressure'), t)
+            want = (vals['DB010' if use2 else 'DB004'], vals['DBR'], vals['WB_DB010' if use2 else 'WB_DB004'],
+                    vals['WS_DB004'], vals['WD_DB004'])
+    except Exception as e:
+        return {'required': 'a design day from the stated values', 'observed': 'raises %s: %s' % (type(e).__name__, e),
+                'sig': dict(sig, clause='ashrae_shapes:raises')}
+    got = (dd.dry_bulb_condition.dry_bulb_max, dd.dry_bulb_condition.dry_bulb_range, dd.humidity_condition.humidity_value,
+           dd.wind_condition.wind_speed, dd.wind_condition.wind_direction)
+    if got != want or (dd.sky_condition.date.month, dd.sky_condition.date.day) != (int(vals['Month']), 21) or \
+            dd.humidity_condition.barometric_pressure != (101325 if inp.get('pressure') is None else inp['pressure']):
+        return {'required': (want, int(vals['Month']), 21), 'observed': (got, str(dd.sky_condition.date),
+                dd.humidity_condition.barometric_pressure), 'sig': dict(sig, clause='ashrae_shapes:values')}
+    sc = dd.sky_condition
+    if kind == 'cooling' and tau is not None:
+        ok = type(sc) is ASHRAETau and (sc.tau_b, sc.tau_d) == (tau[0], tau[1])
+    else:
+        ok = type(sc) is ASHRAEClearSky and sc.clearness == (0 if kind == 'heating' else 1)
+    if not ok:
+        return {'required': 'sky of the stated kind', 'observed': str(sc), 'sig': dict(sig, clause='ashrae_shapes:sky')}
+    return None
+
+
+def _gen_idf_text(rng, no_sky=False):
+    """An EnergyPlus-style design-day object written by the harness (numbers in any legal spelling, any
+    layout) together with the values it states, read off the spelled fields with float() / int() here."""
+    d = _rand_desc(rng, sky=rng.choice(['clear', 'tau']))
+    d['wbr'] = None
+    vals = _good_idf_text(rng, d)
+    vals = [_respell(rng, i, v) if rng.random() < 0.6 else v for i, v in enumerate(vals)]
+    if rng.random() < 0.3:
+        vals = [('YES' if v == 'Yes' else 'no' if v == 'No' else v) for v in vals]
+    if no_sky:
+        vals = vals[:20]
+    style = 'unterminated' if no_sky else rng.choice(['lines', 'compact', 'nocomment', 'crlf', 'tabs', 'unterminated'])
+    text = _render(rng, vals, style, plain=True)
+    num = lambda v: float(str(v).strip())
+    stated = dict(d, month=int(str(vals[1]).strip()), day=int(str(vals[2]).strip()), db_max=num(vals[4]),
+                  db_range=num(vals[5]), pressure=num(vals[14]), ws=num(vals[15]), wd=num(vals[16]))
+    hv = {'Wetbulb': 9, 'Dewpoint': 9, 'HumidityRatio': 11, 'Enthalpy': 12}[d['h_type']]
+    stated['h_value'] = num(vals[hv])
+    if no_sky:
+        stated['sky'] = ['clear', 0]
+    elif d['sky'][0] == 'clear':
+        stated['sky'] = ['clear', num(vals[25])]
+    else:
+        stated['sky'] = ['tau', num(vals[23]), num(vals[24]), d['sky'][3]]
+    return {'text': text, 'stated': stated, 'style': style, 'no_sky': no_sky}
+
+
+def _check_idf_text(inp):
+    """An IDF design-day object in EnergyPlus syntax parses to a design day that carries the values the text
+    states (every field; flags in any case; numbers in any spelling float() / int() accept; an object without
+    the optional solar fields is an ASHRAE clear sky of clearness 0 that keeps the daylight-saving flag)."""
+    from ladybug.designday import DesignDay
+    from ladybug.location import Location
+    loc = Location()
+    sig = {'style': inp['style'], 'no_sky': bool(inp.get('no_sky'))}
+    try:
+        got = DesignDay.from_idf(inp['text'], loc)
+    except Exception as e:
+        return {'required': 'from_idf parses the object', 'observed': 'raises %s: %s' % (type(e).__name__, e),
+                'sig': dict(sig, clause='idf_text:raises', raises=type(e).__name__)}
+    want = _build(inp['stated'], loc)
+    if got != want or type(got.sky_condition) is not type(want.sky_condition):
+        a, b = _canon('ok ' + _show_dd(want)).split(' '), _canon('ok ' + _show_dd(got)).split(' ')
+        diff = [i for i, (x, y) in enumerate(zip(a, b)) if x != y]
+        return {'required': 'the design day the text states: %s' % ' '.join(a[1:]), 'observed':
+                'differs at canonical tokens %s: %s' % (diff, ' '.join(b[1:])),
+                'sig': dict(sig, clause='idf_text:values', differs=','.join(str(i) for i in diff))}
+    return None
+
+
+_STAT_MONTHLY = (('0.4', 'Drybulb 0.4%', 'Coincident Wetbulb 0.4%', 'monthly_cooling_design_days_004', 0.4),
+                 ('2', 'Drybulb 2.0%', 'Coincident Wetbulb 2.0%', 'monthly_cooling_design_days_020', 2),
+                 ('5', 'Drybulb 5.0%', 'Coincident Wetbulb 5.0%', 'monthly_cooling_design_days_050', 5),
+                 ('10', 'Drybulb 10.%', 'Coincident Wetbulb 10.%', 'monthly_cooling_design_days_100', 10))
+
+
+def _stat_row(lines, label):
+    """The 12 monthly numbers of the first table row of a STAT file with this label (stdlib only)."""
+    for ln in lines:
+        st = [t.strip() for t in ln.split('\t')]
+        if len(st) > 13 and st[1] == label:
+            try:
+                return [float(v) for v in st[2:14]]
+            except ValueError:
+                continue
+    return None
+
+
+def _check_stat_monthly(inp):
+    """The sibling families of a STAT file: the four lists of monthly cooling design days (0.4 / 2 / 5 / 10 %)
+    carry the dry bulb and coincident wet bulb of THEIR row of the monthly table, and share the daily range of
+    the 5 % row, the date (21st of the month), the standard pressure, the wind and the sky (the month's
+    taub / taud where stated); to_ddy / to_ddy_monthly_cooling write files that read back as those days."""
+    from ladybug.stat import STAT
+    from ladybug.ddy import DDY
+    from ladybug.designday import ASHRAETau, ASHRAEClearSky
+    fn = inp['file']
+    sig = {'file': fn}
+    path = os.path.join(_assets(), 'stat', fn)
+    with open(path, encoding='utf-8', errors='ignore') as f:
+        lines = f.read().splitlines()
+    st = STAT(path)
+    _, _, press, tb, td = _raw_header('stat', fn)
+    rng_row = _stat_row(lines, 'Drybulb range - DB 5%')
+    fams = {}
+    for tag, dbl, wbl, attr, pct in _STAT_MONTHLY:
+        s = dict(sig, family=tag)
+        db, wb = _stat_row(lines, dbl), _stat_row(lines, wbl)
+        days = getattr(st, attr)
+        if db is None or wb is None or rng_row is None:
+            if list(days) != []:
+                return {'required': 'no %s without the rows of the monthly table' % attr, 'observed': len(days),
+                        'sig': dict(s, clause='stat_monthly:absent')}
+            continue
+        if len(days) != 12:
+            return {'required': '12 monthly days', 'observed': len(days), 'sig': dict(s, clause='stat_monthly:count')}
+        fams[tag] = days
+        for i, dd in enumerate(days):
+            h, sc = dd.humidity_condition, dd.sky_condition
+            got = (dd.dry_bulb_condition.dry_bulb_max, h.humidity_type, h.humidity_value,
+                   dd.dry_bulb_condition.dry_bulb_range, sc.date.month, sc.date.day, dd.day_type,
+                   h.barometric_pressure)
+            want = (db[i], 'Wetbulb', wb[i], rng_row[i], i + 1, 21, 'SummerDesignDay',
+                    101325 if press is None else press)
+            if got != want:
+                return {'required': '%s month %d = %r (rows %r / %r of the file)' % (attr, i + 1, want, dbl, wbl),
+                        'observed': got, 'sig': dict(s, clause='stat_monthly:values', month=i + 1)}
+            if tb and td and len(tb) > i and tb[i] is not None and td[i] is not None:
+                ok = type(sc) is ASHRAETau and (sc.tau_b, sc.tau_d, sc.use_2017) == (tb[i], td[i], False)
+            else:
+                ok = type(sc) is ASHRAEClearSky and sc.clearness == 1
+            if not ok or dd.location != st.location:
+                return {'required': 'sky of month %d from taub / taud of the file, location of the file' % (i + 1),
+                        'observed': str(sc), 'sig': dict(s, clause='stat_monthly:sky', month=i + 1)}
+    ref = fams.get('5')
+    for tag, days in fams.items():
+        for i, (a, b) in enumerate(zip(days, ref or [])):
+            if a.wind_condition != b.wind_condition or a.sky_condition != b.sky_condition:
+                return {'required': 'the same wind and sky in every percentile family (month %d)' % (i + 1),
+                        'observed': (str(a.wind_condition), str(b.wind_condition)),
+                        'sig': dict(sig, family=tag, clause='stat_monthly:siblings')}
+    tmp = tempfile.mkdtemp(prefix='c16_')
+    try:
+        for pct, ha, ca in ((0.4, 'annual_heating_design_day_996', 'annual_cooling_design_day_004'),
+                            (1, 'annual_heating_design_day_990', 'annual_cooling_design_day_010')):
+            want = [getattr(st, ha), getattr(st, ca)]
+            p = os.path.join(tmp, 'a%s.ddy' % pct)
+            try:
+                st.to_ddy(p, pct)
+            except ValueError:
+                if None in want:
+                    continue
+                return {'required': 'to_ddy(%s)' % pct, 'observed': 'ValueError', 'sig': dict(sig, clause='stat_monthly:to_ddy')}
+            back = DDY.from_ddy_file(p)
+            if None in want or [_canon('ok ' + _show_dd(d)) for d in back.design_days] != \
+                    [_canon('ok ' + _show_dd(d)) for d in want]:
+                return {'required': 'to_ddy(%s) reads back as the two annual days' % pct,
+                        'observed': [d.name for d in back.design_days], 'sig': dict(sig, clause='stat_monthly:to_ddy')}
+            for tag, days in fams.items():
+                mp = [f[4] for f in _STAT_MONTHLY if f[0] == tag][0]
+                p2 = os.path.join(tmp, 'm%s_%s.ddy' % (pct, tag))
+                st.to_ddy_monthly_cooling(p2, pct, mp)
+                back = DDY.from_ddy_file(p2)
+                w = [want[0]] + list(days)
+                if [_canon('ok ' + _show_dd(d)).split(' ')[2:] for d in back.design_days] != \
+                        [_canon('ok ' + _show_dd(d)).split(' ')[2:] for d in w] or \
+                        not all(b.name.startswith(d.name) for b, d in zip(back.design_days, w)):
+                    return {'required': 'to_ddy_monthly_cooling(%s, %s) reads back as heating day + 12 monthly days'
+                                        % (pct, mp), 'observed': [d.name for d in back.design_days][:3],
+                            'sig': dict(sig, family=tag, clause='stat_monthly:to_ddy_monthly')}
+        try:
+            st.to_ddy(os.path.join(tmp, 'x.ddy'), 2)
+            return {'required': 'to_ddy(2) is refused (no such days in a STAT file)', 'observed': 'accepted',
+                    'sig': dict(sig, clause='stat_monthly:refusal')}
+        except ValueError:
+            pass
+    finally:
+        shutil.rmtree(tmp, ignore_errors=True)
+    return None
+
+
 FIXED_DESC = {'name': 'Fixed Day', 'day_type': 'SummerDesignDay', 'db_max': 33.3, 'db_range': 10.5,
               'mod_type': 'DefaultMultipliers', 'mod_sched': '', 'h_type': 'Wetbulb', 'h_value': 23.6,
               'pressure': 99063, 'rain': False, 'snow': False, 'sched': '', 'wbr': None, 'ws': 5.2, 'wd': 230,
@@ -2439,11 +3466,78 @@ def _oracle_cases(ctx):
     for fn in sorted(os.listdir(os.path.join(_assets(), 'stat'))):
         if fn.lower().endswith('.stat'):
             yield 'header_days', {'source': 'stat', 'file': fn}
+    for fn in sorted(os.listdir(os.path.join(_assets(), 'stat'))):
+        if fn.lower().endswith('.stat'):
+            yield 'stat_monthly', {'file': fn}
     epws = sorted(f for f in os.listdir(os.path.join(_assets(), 'epw')) if f.lower().endswith('.epw'))
     pcts = (0.4, 1, 2, 5) if big else (rng.choice([0.4, 1]), rng.choice([2, 5]))
     for fn in (epws if big else [epws[ctx.seed % len(epws)], epws[(ctx.seed + 2) % len(epws)]]):
         for p in pcts:
             yield 'approx_days', {'file': fn, 'percentile': p, 'monthly': 5 if p in (0.4, 2) else None}
+    # round 4: EPW variants written by the harness (leap year with 29 Feb, missing pressure, no design
+    # conditions in the header): days from the hourly data, header days, histories
+    variants = ['gen:leap:chicago.epw', 'gen:leapnohdr:tokyo.epw', 'gen:nopress:tokyo.epw', 'gen:nohdr:chicago.epw',
+                'gen:leap:long_beach_2021.epw', 'gen:leap:tokyo.epw']
+    vsel = variants if big else [variants[0], variants[1 + ctx.seed % (len(variants) - 1)]]
+    for fn in vsel:
+        yield 'header_days', {'source': 'epw', 'file': fn}
+        for p in ((0.4, 1, 2.5, 5) if big else (rng.choice([0.4, 1]),)):
+            yield 'approx_days', {'file': fn, 'percentile': p, 'monthly': rng.choice([5, 10, 2, 0.4])}
+    yield 'epw_history', {'file': vsel[0], 'ops': [['approx', 1.0, 5.0], ['to_ddy_monthly', 0.4, 5], ['to_ddy', 2],
+                                                   ['header'], ['to_ddy_monthly', 1, 10]]}
+    yield 'epw_history', {'file': vsel[-1], 'ops': [['to_ddy', 0.4], ['header'], ['approx', 5, 2], ['to_ddy_monthly', 2, 2]]}
+    # round 4: the design days of a DDY handed over in every kind of sequence (one-shot iterables included)
+    for i, shape in enumerate(SHAPES):
+        for via in (('init', 'setter', 'setter_twice', 'refused', 'to_file') if big else
+                    ('init', ('setter', 'setter_twice', 'refused', 'to_file')[(i + ctx.seed) % 4])):
+            n = rng.choice([1, 2, 3, 4])
+            days = []
+            for _ in range(n):
+                d = _rand_desc(rng, sky=rng.choice(['clear', 'tau']))
+                d['wbr'] = None
+                days.append(d)
+            yield 'shapes', {'loc': _rand_loc(rng), 'days': days, 'shape': shape, 'via': via}
+    yield 'shapes', {'loc': FIXED_LOC, 'days': [], 'shape': 'generator', 'via': 'init'}
+    # round 4: every construction route gives the same design day (leap dates, sibling sky classes, twins)
+    for k in range(40 if not big else 400):
+        sky = ('clear', 'tau', 'tau', 'base')[k % 4]
+        d = _rand_desc(rng, sky=sky)
+        if k % 3 == 0:
+            d['leap'] = True
+            d['month'], d['day'] = rng.choice([(2, 29), (3, 1), (12, 31), (1, 1), (2, 28), (8, 21)])
+        if k % 5 == 0:
+            d.update(mod_type='DefaultMultipliers', mod_sched='', rain=False, snow=False, sched='', wbr=None, dst=False)
+        loc = rng.choice([FIXED_LOC] + ALT_LOCS) if k % 2 else _rand_loc(rng)
+        if d['dst'] and (d['month'], d['day']) == (1, 1):
+            d['dst'] = False
+        yield 'routes', {'desc': d, 'loc': loc}
+    # round 4: leap-year dates x every sky class x daylight saving (hourly series, sun date-times, radiation)
+    for (m, day) in ((2, 29), (3, 1), (12, 31), (2, 28), (1, 1), (7, 21)):
+        for sky in (['clear', 1], ['tau', 0.436, 2.106, False], ['tau', 0.45, 2.1, True], ['base', '', '']):
+            for dst in (False, True):
+                if dst and (m, day) == (1, 1):
+                    continue
+                yield 'dates', {'desc': _with(month=m, day=day, leap=True, dst=dst, sky=sky),
+                                'loc': rng.choice([FIXED_LOC] + ALT_LOCS[:2]),
+                                'timesteps': [1, rng.choice(TIMESTEPS)]}
+    # round 4: header dictionaries in every container / spelling
+    hv = {'Month': 1, 'DB996': -20.0, 'DB990': -16.6, 'WS_DB996': 4.9, 'WD_DB996': 270}
+    cv = {'Month': 7, 'DBR': 10.5, 'DB004': 33.3, 'WB_DB004': 23.7, 'DB010': 31.6, 'WB_DB010': 23.0,
+          'WS_DB004': 5.2, 'WD_DB004': 230}
+    for sp in ('plain', 'blank', 'zero', 'number', 'exp'):
+        for cont in ('dict', 'reversed', 'ordered', 'surplus'):
+            if not big and rng.random() < 0.5:
+                continue
+            hv2 = dict(hv, Month=rng.randrange(1, 13), DB996=round(rng.uniform(-30, 10), 1))
+            cv2 = dict(cv, Month=rng.randrange(1, 13), DBR=round(rng.uniform(0, 20), 1))
+            yield 'ashrae_shapes', {'kind': 'heating', 'values': hv2, 'use_second': rng.random() < 0.5,
+                                    'spelling': sp, 'container': cont, 'pressure': rng.choice([None, 98000.0])}
+            yield 'ashrae_shapes', {'kind': 'cooling', 'values': cv2, 'use_second': rng.random() < 0.5,
+                                    'spelling': sp, 'container': cont, 'pressure': rng.choice([None, 99063]),
+                                    'tau': rng.choice([None, [0.45, 2.1]]), 'tau_shape': rng.choice(['list', 'tuple'])}
+    # round 4: EnergyPlus-style texts written by the harness state their values (spellings, layouts, no solar fields)
+    for k in range(120 if not big else 1500):
+        yield 'idf_text', _gen_idf_text(rng, no_sky=(k % 6 == 0))
     # rare classes as strata of their own
     for ht in HUM_TYPES:
         for _ in range(3 if not big else 30):
@@ -2486,6 +3580,8 @@ def _oracle_cases(ctx):
         loc = _rand_loc(rng)
         if d['dst'] and (d['month'], d['day']) == (1, 1) and abs(loc['lat']) > 60:
             loc['lat'] = 45.0
+        if rng.random() < 0.2:
+            d['leap'] = True
         yield 'dates', {'desc': d, 'loc': loc, 'timesteps': [1, rng.choice(TIMESTEPS)]}
     for _ in range(500 if not big else 6000):
         d = _rand_desc(rng, sky=rng.choice(['clear', 'tau']))
@@ -2501,7 +3597,54 @@ def _oracle_cases(ctx):
         yield 'ddy_roundtrip', {'loc': _rand_loc(rng), 'days': days}
 
 
-_LIGHT_OPS = ('profile', 'dates', 'idf_roundtrip', 'history', 'ddy_roundtrip', 'ddy_history')
+def _case_branches(op, inp):
+    """Branches of the anchored functions an oracle case reaches, read off its input."""
+    out = []
+    d = inp.get('desc') if isinstance(inp, dict) else None
+    if d and op in ('profile', 'dates', 'routes', 'idf_roundtrip'):
+        out.append('dew_point:' + d['h_type'])
+        out.append('to_idf:sky:' + d['sky'][0])
+        if op in ('profile', 'routes'):
+            w = _stated_dew_point(d)
+            if w is not None:
+                out.append('hourly_dew_point:' + ('saturated_hours' if w > d['db_max'] - d['db_range'] else 'never_saturated'))
+        if d['sky'][0] == 'clear':
+            out.append('sky_cover:' + ('clearness>1' if d['sky'][1] > 1 else 'clearness<=1'))
+        if op in ('dates', 'routes'):
+            out.append('get_datetimes:' + ('dst' if d['dst'] else 'standard'))
+            for ts in inp.get('timesteps', [1]):
+                out.append('get_datetimes:' + ('timestep1' if ts == 1 else 'subhourly'))
+            if d.get('leap'):
+                out.append('date:leap_year:' + d['sky'][0])
+    elif op in ('approx_days', 'header_days', 'epw_history') and inp.get('source', 'epw') == 'epw':
+        fn = inp['file']
+        v = fn.split(':')[1] if fn.startswith('gen:') else 'shipped'
+        out.append('epw:' + {'leap': 'leap_year_file', 'nopress': 'missing_pressure', 'nohdr': 'no_design_conditions',
+                             'leapnohdr': 'leap_year_file+no_design_conditions'}.get(v, 'shipped'))
+        if op == 'approx_days':
+            out.append('epw:percentile_name:' + ('int' if int(inp['percentile']) == inp['percentile'] else 'float'))
+        if op == 'epw_history':
+            for o in inp['ops']:
+                if o[0] in ('to_ddy', 'to_ddy_monthly'):
+                    out.append('epw:best_available:%s' % ('0.4' if o[1] == 0.4 else '1' if o[1] == 1 else 'other'))
+                if o[0] == 'bad':
+                    out.append('epw:unknown_day_type')
+    elif op == 'shapes':
+        out.append('ddy_setter:' + ('list' if inp['shape'] == 'list' else 'other_iterable'))
+        if inp['via'] == 'refused':
+            out += ['ddy_setter:not_iterable', 'ddy_setter:wrong_item']
+    elif op == 'ashrae_shapes':
+        out.append('ashrae_%s:%s' % (inp['kind'], 'second_percentile' if inp['use_second'] else 'first_percentile'))
+        out.append('ashrae:pressure_' + ('default' if inp.get('pressure') is None else 'given'))
+        if inp['kind'] == 'cooling':
+            out.append('ashrae_cooling:tau_' + ('none' if inp.get('tau') is None else 'given'))
+    elif op == 'header_days' and inp.get('source') == 'stat':
+        out.append('stat:header_days')
+    return out
+
+
+_LIGHT_OPS = ('profile', 'dates', 'idf_roundtrip', 'history', 'ddy_roundtrip', 'ddy_history', 'shapes', 'routes',
+              'ashrae_shapes', 'idf_text')
 
 
 def _run_stream(ctx, cases):
@@ -2521,6 +3664,11 @@ def _run_stream(ctx, cases):
                    'sig': {'exception': type(e).__name__}}
         ctx.count('oracle:' + op)
         ctx.case((op, json.dumps(inp, sort_keys=True, default=str)))
+        try:
+            for b in _case_branches(op, inp):
+                ctx.count('branch:' + b)
+        except Exception:
+            pass
         if res and op in _LIGHT_OPS and conversions < 3 and \
                 not any(core.matches(dict(res.get('sig') or {}, op=op), k) for k in known):
             conversions += 1
@@ -2575,6 +3723,12 @@ LEVEL_TEXT = ('Machine-checked Lean 4 theorems over an executable model of desig
               'machine): the final object is one the constructors accept and equals the design day built from '
               'scratch from its public state (every observable agrees), a refused operation changes nothing, reads '
               'are pure and their order and number cannot matter, and the IDF round trip holds after any history. '
+              'Round 4: the days a DDY holds are the items of the argument for every container kind, one-shot '
+              'iterators included (statement order of the setter regenerated from ddy.py; a refused assignment keeps '
+              'the old days); both branches of the hourly dew point (saturated hours have relative humidity exactly '
+              '100) and of the sky cover; all 24 hourly relative humidities in (0, 100] on frost days and on days '
+              'with dew point above freezing; sibling sky classes evaluate the sun at the same date-times; the '
+              'date theorems cover dates of the leap year (collection headers carry the year kind of the date). '
               'The IDF field '
               'layout used by the model is regenerated from to_idf/from_idf on every run. Radiation values, '
               'EPW percentile days and the character level of the text are checked on the real code only.')
